@@ -5,6 +5,7 @@ import Orda.Proofs.PlainRefine
 import Orda.Proofs.PatchDiff
 import Mathlib.Tactic.SplitIfs
 import Mathlib.Tactic.Tauto
+import Mathlib.Tactic.Set
 namespace Orda.DP
 open Orda DC
 
@@ -654,5 +655,2021 @@ theorem any_hasNull_iff (vs : List JVal) : vs.any JVal.hasNull = JVal.hasNullLis
   induction vs with
   | nil => rfl
   | cons v vs ih => simp [JVal.hasNullList, ih]
+
+/-! ## 3. the single-replica invariant of a document -/
+
+/-- stamp bound: the era of the replica; a clock value not beyond `L`, or the value being handed out right
+    now with a delimiter below `b` -/
+def St (L : OpId) (b : Nat) (t : Ts) : Prop :=
+  t.era = L.era ∧ (t.lamport ≤ L.lamport ∨ (t.lamport = L.lamport + 1 ∧ t.delim < b))
+
+theorem St.mono {L : OpId} {b b' : Nat} {t : Ts} (h : St L b t) (hb : b ≤ b') : St L b' t :=
+  ⟨h.1, h.2.imp id (fun ⟨a, c⟩ => ⟨a, by omega⟩)⟩
+
+def ordIds : DKind → List Ts
+  | .arr sl _ => sl.map (·.1)
+  | _ => []
+
+/-- the stored size is the number of live children -/
+def SizeOK (d : Doc) : DKind → Prop
+  | .elem _ => True
+  | .obj m s => s = ((m.filter fun e => !d.isTomb e.2).length : Int)
+  | .arr sl s => s = ((sl.filter (slotLive d)).length : Int)
+
+theorem sizeOK_congr {d d' : Doc} {K : DKind} (h : ∀ c ∈ kids K, d'.isTomb c = d.isTomb c) (hs : SizeOK d K) :
+    SizeOK d' K := by
+  cases K with
+  | elem v => trivial
+  | obj m s =>
+    unfold SizeOK at hs ⊢
+    rw [hs]
+    congr 2
+    apply List.filter_congr
+    intro x hx
+    rw [h x.2 (List.mem_map.mpr ⟨x, hx, rfl⟩)]
+  | arr sl s =>
+    unfold SizeOK at hs ⊢
+    rw [hs]
+    congr 2
+    apply List.filter_congr
+    intro x hx
+    unfold slotLive
+    rw [h x.2 (List.mem_map.mpr ⟨x, hx, rfl⟩)]
+
+structure DInv (L : OpId) (b : Nat) (d : Doc) : Prop where
+  wf : d.WF
+  acyc : ∃ rk, Ranked d rk
+  root : ∃ m s, d.find Ts.oldest = some ⟨Ts.oldest, none, none, .obj m s⟩
+  sizes : ∀ c n, d.find c = some n → SizeOK d n.kind
+  stamps : ∀ c n, d.find c = some n →
+    St L b n.c ∧ (∀ t, n.d = some t → St L b t) ∧ ∀ o ∈ ordIds n.kind, St L b o
+  ordnd : ∀ c n, d.find c = some n → (ordIds n.kind).Nodup
+  linked : ∀ c n, d.find c = some n → n.d = none →
+    c = Ts.oldest ∨ ∃ p pn, n.parent = some p ∧ d.find p = some pn ∧ c ∈ kids pn.kind
+  scalar : ∀ c n v, d.find c = some n → n.kind = .elem v → Scalar v
+
+theorem DInv.dg {L : OpId} {b : Nat} {d : Doc} (h : DInv L b d) (hk : KeysND d) : DG d := ⟨h.wf, h.acyc, hk⟩
+
+theorem DInv.mono {L : OpId} {b b' : Nat} {d : Doc} (h : DInv L b d) (hb : b ≤ b') : DInv L b' d :=
+  ⟨h.wf, h.acyc, h.root, h.sizes, fun c n hf => by
+      obtain ⟨s1, s2, s3⟩ := h.stamps c n hf
+      exact ⟨s1.mono hb, fun t ht => (s2 t ht).mono hb, fun o ho => (s3 o ho).mono hb⟩,
+    h.ordnd, h.linked, h.scalar⟩
+
+/-- the single-replica invariant of a document replica -/
+def DocInv (r : Replica) : Prop := ∃ d, r.state = .doc d ∧ DInv r.opId 0 d ∧ KeysND d
+
+/-- identifiers that are being handed out are not in the table -/
+theorem fresh_of_newst {L : OpId} {b b' : Nat} {d : Doc} {ns : List DNode} (h : DInv L b d)
+    (hn : ∀ c ∈ ids ns, c.era = L.era ∧ c.lamport = L.lamport + 1 ∧ b ≤ c.delim ∧ c.delim < b') : Fresh d ns := by
+  intro c hc
+  cases hf : d.find c with
+  | none => rfl
+  | some n =>
+    obtain ⟨h1, _, _⟩ := h.stamps c n hf
+    rw [find_some_c hf] at h1
+    obtain ⟨_, h3, h4, _⟩ := hn c hc
+    rcases h1.2 with h5 | h5 <;> omega
+
+theorem block_newst {L : OpId} {ts ts' : Ts} {ns : List DNode} (hb : Block ts ns ts') (h1 : ts.era = L.era)
+    (h2 : ts.lamport = L.lamport + 1) :
+    ∀ c ∈ ids ns, c.era = L.era ∧ c.lamport = L.lamport + 1 ∧ ts.delim ≤ c.delim ∧ c.delim < ts'.delim := by
+  intro c hc
+  have hd := DA.block_delim hb hc
+  rw [hb.ids] at hc
+  obtain ⟨i, _, rfl⟩ := DC.mem_delimSeq.mp hc
+  exact ⟨h1, h2, hd.1, hd.2.1⟩
+
+/-! ### a generic step: new nodes, a new kind for `hd`, some children of `hd` buried or tombstoned -/
+
+/-- the new kind of `hd` is of the old sort; distinct keys / distinct stamped order identifiers -/
+def ShapeOK (L : OpId) (b' : Nat) : DKind → DKind → Prop
+  | .obj _ _, .obj _ _ => True
+  | .arr _ _, .arr sl' _ => (sl'.map (·.1)).Nodup ∧ ∀ o ∈ sl'.map (·.1), St L b' o
+  | _, _ => False
+
+structure Stp (L : OpId) (b b' : Nat) (d : Doc) (hd : Ts) (pn : DNode) (K' : DKind) (ns : List DNode)
+    (bury tm : Ts → Option Ts) (d' : Doc) : Prop where
+  inv : DInv L b d
+  hp : d.find hd = some pn
+  find' : ∀ c, d'.find c = if c = hd then some { pn with kind := K' } else
+      match bury c with
+      | some t => fun1 t (d.find c)
+      | none => match tm c with
+        | some t => setD t (d.find c)
+        | none => (nfind ns c).or (d.find c)
+  nodup : (ids d'.table).Nodup
+  block : ∃ ts ts', Block ts ns ts'
+  newst : ∀ c ∈ ids ns, c.era = L.era ∧ c.lamport = L.lamport + 1 ∧ b ≤ c.delim ∧ c.delim < b'
+  bb : b ≤ b'
+  nodeok : ∀ n ∈ ns, NodeOK n
+  lnk : ∀ n ∈ ns, (n.c ∈ kids K' ∧ n.parent = some hd) ∨ ∃ p ∈ ns, n.parent = some p.c ∧ n.c ∈ kids p.kind
+  touched : ∀ x t, (bury x = some t ∨ tm x = some t) → x ∈ kids pn.kind ∧ St L b' t
+  buryK : ∀ x t, bury x = some t → x ∉ kids K'
+  kidsK : ∀ c ∈ kids K', c ∈ kids pn.kind ∨ ∃ n ∈ ns, n.c = c ∧ n.parent = some hd
+  keep : ∀ c ∈ kids pn.kind, bury c = none → c ∈ kids K'
+  kidsnd : (kids K').Nodup
+  shape : ShapeOK L b' pn.kind K'
+
+namespace Stp
+variable {L : OpId} {b b' : Nat} {d d' : Doc} {hd : Ts} {pn : DNode} {K' : DKind} {ns : List DNode}
+  {bury tm : Ts → Option Ts}
+
+theorem fresh (h : Stp L b b' d hd pn K' ns bury tm d') : Fresh d ns := fresh_of_newst h.inv h.newst
+
+theorem idsnd (h : Stp L b b' d hd pn K' ns bury tm d') : (ids ns).Nodup := by
+  obtain ⟨ts, ts', hb⟩ := h.block
+  exact block_ids_nodup hb
+
+theorem kid_in (h : Stp L b b' d hd pn K' ns bury tm d') {x : Ts} (hx : x ∈ kids pn.kind) :
+    ∃ nx, d.find x = some nx ∧ nx.parent = some hd := h.inv.wf.child hd pn h.hp x hx
+
+theorem kid_ne_hd (h : Stp L b b' d hd pn K' ns bury tm d') {x : Ts} (hx : x ∈ kids pn.kind) : x ≠ hd := by
+  obtain ⟨rk, hr⟩ := h.inv.acyc
+  intro e
+  have := hr hd pn h.hp x hx
+  rw [e] at this
+  exact Nat.lt_irrefl _ this
+
+theorem kid_not_new (h : Stp L b b' d hd pn K' ns bury tm d') {x : Ts} (hx : x ∈ kids pn.kind) : x ∉ ids ns := by
+  intro hn
+  obtain ⟨nx, h1, _⟩ := h.kid_in hx
+  rw [h.fresh x hn] at h1; cases h1
+
+theorem hd_not_new (h : Stp L b b' d hd pn K' ns bury tm d') : hd ∉ ids ns := by
+  intro hn
+  have := h.fresh hd hn
+  rw [h.hp] at this; cases this
+
+theorem bury_kid (h : Stp L b b' d hd pn K' ns bury tm d') {x t : Ts} (hx : bury x = some t) : x ∈ kids pn.kind :=
+  (h.touched x t (Or.inl hx)).1
+
+theorem tm_kid (h : Stp L b b' d hd pn K' ns bury tm d') {x t : Ts} (hx : tm x = some t) : x ∈ kids pn.kind :=
+  (h.touched x t (Or.inr hx)).1
+
+theorem find_hd (h : Stp L b b' d hd pn K' ns bury tm d') : d'.find hd = some { pn with kind := K' } := by
+  rw [h.find']; simp
+
+theorem find_new (h : Stp L b b' d hd pn K' ns bury tm d') {n : DNode} (hn : n ∈ ns) : d'.find n.c = some n := by
+  have hmem : n.c ∈ ids ns := List.mem_map.mpr ⟨n, hn, rfl⟩
+  have h1 : n.c ≠ hd := fun e => h.hd_not_new (e ▸ hmem)
+  have h2 : bury n.c = none := by
+    cases hb : bury n.c with
+    | none => rfl
+    | some t => exact absurd hmem (h.kid_not_new (h.bury_kid hb))
+  have h3 : tm n.c = none := by
+    cases hb : tm n.c with
+    | none => rfl
+    | some t => exact absurd hmem (h.kid_not_new (h.tm_kid hb))
+  rw [h.find', if_neg h1, h2, h3, nfind_of_mem h.idsnd hn]
+  rfl
+
+theorem find_old (h : Stp L b b' d hd pn K' ns bury tm d') {c : Ts} {n : DNode} (hf : d.find c = some n)
+    (h1 : c ≠ hd) (h2 : bury c = none) (h3 : tm c = none) : d'.find c = some n := by
+  have : nfind ns c = none := by
+    rw [nfind_none_iff]
+    intro hc
+    rw [h.fresh c hc] at hf; cases hf
+  rw [h.find', if_neg h1, h2, h3, this, hf]
+  rfl
+
+theorem inversion (h : Stp L b b' d hd pn K' ns bury tm d') {c : Ts} {n : DNode} (hf : d'.find c = some n) :
+    (c = hd ∧ n = { pn with kind := K' }) ∨ (n ∈ ns ∧ n.c = c) ∨
+    (c ≠ hd ∧ c ∉ ids ns ∧ ∃ n0, d.find c = some n0 ∧ n.kind = n0.kind ∧ n.parent = n0.parent ∧ n.c = n0.c ∧
+      ((n.d = n0.d ∧ bury c = none ∧ tm c = none) ∨ (∃ t, n.d = some t ∧ St L b' t ∧ c ∈ kids pn.kind))) := by
+  rw [h.find'] at hf
+  by_cases e : c = hd
+  · simp only [e, if_true, Option.some.injEq] at hf
+    exact Or.inl ⟨e, hf.symm⟩
+  · simp only [e, if_false] at hf
+    cases hb : bury c with
+    | some t =>
+      simp only [hb] at hf
+      obtain ⟨hk, hst⟩ := h.touched c t (Or.inl hb)
+      cases h0 : d.find c with
+      | none => simp [h0, fun1] at hf
+      | some n0 =>
+        simp only [h0, fun1] at hf
+        split at hf
+        · cases hf
+        · simp only [Option.some.injEq] at hf
+          subst hf
+          exact Or.inr (Or.inr ⟨e, h.kid_not_new hk, n0, rfl, rfl, rfl, rfl, Or.inr ⟨t, rfl, hst, hk⟩⟩)
+    | none =>
+      simp only [hb] at hf
+      cases ht : tm c with
+      | some t =>
+        simp only [ht] at hf
+        obtain ⟨hk, hst⟩ := h.touched c t (Or.inr ht)
+        cases h0 : d.find c with
+        | none => simp [h0, setD] at hf
+        | some n0 =>
+          simp only [h0, setD, Option.map_some, Option.some.injEq] at hf
+          subst hf
+          exact Or.inr (Or.inr ⟨e, h.kid_not_new hk, n0, rfl, rfl, rfl, rfl, Or.inr ⟨t, rfl, hst, hk⟩⟩)
+      | none =>
+        simp only [ht] at hf
+        cases hn : nfind ns c with
+        | some m =>
+          rw [hn] at hf
+          have hf' : some m = some n := hf
+          simp only [Option.some.injEq] at hf'
+          subst hf'
+          exact Or.inr (Or.inl (nfind_some hn))
+        | none =>
+          rw [hn] at hf
+          have hf' : d.find c = some n := hf
+          exact Or.inr (Or.inr ⟨e, nfind_none_iff.mp hn, n, hf', rfl, rfl, rfl, Or.inl ⟨rfl, rfl, rfl⟩⟩)
+
+theorem isTomb_hd (h : Stp L b b' d hd pn K' ns bury tm d') : d'.isTomb hd = d.isTomb hd := by
+  unfold Doc.isTomb
+  rw [h.find_hd, h.hp]
+
+/-- the children of an old node other than `hd` keep their tombstone flag -/
+theorem isTomb_kid (h : Stp L b b' d hd pn K' ns bury tm d') {q y : Ts} {nq : DNode} (hq : d.find q = some nq)
+    (hne : q ≠ hd) (hy : y ∈ kids nq.kind) : d'.isTomb y = d.isTomb y := by
+  obtain ⟨ny, hny, _⟩ := h.inv.wf.child q nq hq y hy
+  by_cases e : y = hd
+  · rw [e]; exact h.isTomb_hd
+  · have h2 : bury y = none := by
+      cases hb : bury y with
+      | none => rfl
+      | some t => exact absurd (wf_unique_parent h.inv.wf hq h.hp hy (h.bury_kid hb)) hne
+    have h3 : tm y = none := by
+      cases hb : tm y with
+      | none => rfl
+      | some t => exact absurd (wf_unique_parent h.inv.wf hq h.hp hy (h.tm_kid hb)) hne
+    exact isTomb_of_find ((h.find_old hny e h2 h3).trans hny.symm)
+
+theorem isTomb_new (h : Stp L b b' d hd pn K' ns bury tm d') {n : DNode} (hn : n ∈ ns) : d'.isTomb n.c = false := by
+  obtain ⟨ts, ts', hb⟩ := h.block
+  simp [Doc.isTomb, h.find_new hn, hb.live n hn]
+
+theorem new_kid (h : Stp L b b' d hd pn K' ns bury tm d') {n : DNode} (hn : n ∈ ns) {c : Ts} (hc : c ∈ kids n.kind) :
+    ∃ nc ∈ ns, nc.c = c ∧ nc.parent = some n.c ∧ n.c.delim < c.delim := by
+  obtain ⟨ts, ts', hb⟩ := h.block
+  exact hb.links n hn c hc
+
+theorem shape_arr (h : Stp L b b' d hd pn K' ns bury tm d') {sl : List (Ts × Ts)} {s : Int} (hk : K' = .arr sl s) :
+    (sl.map (·.1)).Nodup ∧ ∀ o ∈ sl.map (·.1), St L b' o := by
+  have := h.shape
+  rw [hk] at this
+  unfold ShapeOK at this
+  split at this
+  · rename_i e2; cases e2
+  · rename_i e2
+    simp only [DKind.arr.injEq] at e2
+    rw [e2.1]; exact this
+  · exact this.elim
+
+theorem shape_not_elem (h : Stp L b b' d hd pn K' ns bury tm d') {v : JVal} (hk : K' = .elem v) : False := by
+  have := h.shape
+  rw [hk] at this
+  unfold ShapeOK at this
+  split at this
+  · rename_i e2; cases e2
+  · rename_i e2; cases e2
+  · exact this
+
+theorem next_wf (h : Stp L b b' d hd pn K' ns bury tm d') : d'.WF := by
+  obtain ⟨ts, ts', hb⟩ := h.block
+  refine ⟨h.nodup, ?_, ?_⟩
+  · intro p n hf c hc
+    rcases h.inversion hf with ⟨rfl, rfl⟩ | ⟨hn, rfl⟩ | ⟨hne, _, n0, h0, hk, _, _, _⟩
+    · simp only at hc
+      rcases h.kidsK c hc with hold | ⟨n', hn', rfl, hpar⟩
+      · obtain ⟨nc, hnc, hpar⟩ := h.kid_in hold
+        have hb0 : bury c = none := by
+          cases hbc : bury c with
+          | none => rfl
+          | some t => exact absurd hc (h.buryK c t hbc)
+        cases ht : tm c with
+        | none => exact ⟨nc, h.find_old hnc (h.kid_ne_hd hold) hb0 ht, hpar⟩
+        | some t =>
+          refine ⟨{ nc with d := some t }, ?_, hpar⟩
+          rw [h.find', if_neg (h.kid_ne_hd hold), hb0, ht, hnc]
+          rfl
+      · exact ⟨n', h.find_new hn', hpar⟩
+    · obtain ⟨nc, hnc, rfl, hpar, _⟩ := h.new_kid hn hc
+      exact ⟨nc, h.find_new hnc, hpar⟩
+    · rw [hk] at hc
+      obtain ⟨nc, hnc, hpar⟩ := h.inv.wf.child p n0 h0 c hc
+      by_cases e : c = hd
+      · subst e
+        rw [h.hp] at hnc
+        simp only [Option.some.injEq] at hnc
+        subst hnc
+        exact ⟨_, h.find_hd, hpar⟩
+      · have h2 : bury c = none := by
+          cases hbc : bury c with
+          | none => rfl
+          | some t => exact absurd (wf_unique_parent h.inv.wf h0 h.hp hc (h.bury_kid hbc)) hne
+        have h3 : tm c = none := by
+          cases hbc : tm c with
+          | none => rfl
+          | some t => exact absurd (wf_unique_parent h.inv.wf h0 h.hp hc (h.tm_kid hbc)) hne
+        exact ⟨nc, h.find_old hnc e h2 h3, hpar⟩
+  · intro p n hf
+    rcases h.inversion hf with ⟨rfl, rfl⟩ | ⟨hn, rfl⟩ | ⟨_, _, n0, h0, hk, _, _, _⟩
+    · exact h.kidsnd
+    · exact hb.inj n hn
+    · rw [hk]; exact h.inv.wf.inj p n0 h0
+
+theorem next_acyc (h : Stp L b b' d hd pn K' ns bury tm d') : ∃ rk, Ranked d' rk := by
+  obtain ⟨ts, ts', hb⟩ := h.block
+  obtain ⟨rk, hr⟩ := h.inv.acyc
+  refine ⟨newRank rk ns ts' (ns.length + 1), ?_⟩
+  have hnew : ∀ c, c ∈ ids ns → newRank rk ns ts' (ns.length + 1) c < ns.length + 1 := by
+    intro c hc
+    have := (DA.newRank_new_le (rk := rk) hb (ns.length + 1) hc).1
+    omega
+  have hold : ∀ c, c ∉ ids ns → newRank rk ns ts' (ns.length + 1) c = rk c + (ns.length + 1) :=
+    fun c hc => newRank_old hc
+  intro p n hf c hc
+  rcases h.inversion hf with ⟨rfl, rfl⟩ | ⟨hn, rfl⟩ | ⟨hne, hnn, n0, h0, hk, _, _, _⟩
+  · simp only at hc
+    rw [hold _ h.hd_not_new]
+    rcases h.kidsK c hc with hc' | ⟨n', hn', rfl, _⟩
+    · rw [hold c (h.kid_not_new hc')]
+      have := hr p pn h.hp c hc'
+      omega
+    · have := hnew n'.c (List.mem_map.mpr ⟨n', hn', rfl⟩)
+      omega
+  · obtain ⟨nc, hnc, rfl, _, hlt⟩ := h.new_kid hn hc
+    have hq' : n.c ∈ ids ns := List.mem_map.mpr ⟨n, hn, rfl⟩
+    have hc' : nc.c ∈ ids ns := List.mem_map.mpr ⟨nc, hnc, rfl⟩
+    rw [newRank_new hq', newRank_new hc']
+    have := DA.block_delim hb hc'
+    omega
+  · rw [hk] at hc
+    obtain ⟨nc, hnc, _⟩ := h.inv.wf.child p n0 h0 c hc
+    have hcn : c ∉ ids ns := fun e => by rw [h.fresh c e] at hnc; cases hnc
+    rw [hold c hcn, hold p hnn]
+    have := hr p n0 h0 c hc
+    omega
+
+theorem next_keys (h : Stp L b b' d hd pn K' ns bury tm d') (hkeys : KeysND d) (hnk : NodesKeysND ns)
+    (hK : ∀ m s, K' = .obj m s → (m.map (·.1)).Nodup) : KeysND d' := by
+  intro p n m s hf hk
+  rcases h.inversion hf with ⟨rfl, rfl⟩ | ⟨hn, rfl⟩ | ⟨_, _, n0, h0, hk0, _, _, _⟩
+  · exact hK m s hk
+  · exact hnk n hn m s hk
+  · exact hkeys p n0 m s h0 (hk0 ▸ hk)
+
+theorem next_root (h : Stp L b b' d hd pn K' ns bury tm d') :
+    ∃ m s, d'.find Ts.oldest = some ⟨Ts.oldest, none, none, .obj m s⟩ := by
+  obtain ⟨m, s, hr⟩ := h.inv.root
+  by_cases e : hd = Ts.oldest
+  · have hp := h.hp
+    rw [e, hr] at hp
+    simp only [Option.some.injEq] at hp
+    have hf := h.find_hd
+    rw [e] at hf
+    cases hK : K' with
+    | elem v => exact (h.shape_not_elem hK).elim
+    | obj m' s' => exact ⟨m', s', by rw [hf, ← hp, hK]⟩
+    | arr sl' s' =>
+      have := h.shape
+      rw [← hp, hK] at this
+      exact this.elim
+  · have hnk : Ts.oldest ∉ kids pn.kind := by
+      intro hk
+      obtain ⟨nx, h1, h2⟩ := h.kid_in hk
+      rw [hr] at h1
+      simp only [Option.some.injEq] at h1
+      subst h1
+      cases h2
+    have h2 : bury Ts.oldest = none := by
+      cases hb : bury Ts.oldest with
+      | none => rfl
+      | some t => exact absurd (h.bury_kid hb) hnk
+    have h3 : tm Ts.oldest = none := by
+      cases hb : tm Ts.oldest with
+      | none => rfl
+      | some t => exact absurd (h.tm_kid hb) hnk
+    exact ⟨m, s, h.find_old hr (fun e' => e e'.symm) h2 h3⟩
+
+theorem next_sizes (h : Stp L b b' d hd pn K' ns bury tm d') (hsize : SizeOK d' K') :
+    ∀ c n, d'.find c = some n → SizeOK d' n.kind := by
+  intro c n hf
+  rcases h.inversion hf with ⟨rfl, rfl⟩ | ⟨hn, rfl⟩ | ⟨hne, _, n0, h0, hk0, _, _, _⟩
+  · exact hsize
+  · have hok := h.nodeok n hn
+    have hlive : ∀ x ∈ kids n.kind, d'.isTomb x = false := by
+      intro x hx
+      obtain ⟨nc, hnc, rfl, _⟩ := h.new_kid hn hx
+      exact h.isTomb_new hnc
+    unfold NodeOK at hok
+    cases hk : n.kind with
+    | elem v => trivial
+    | obj m s =>
+      rw [hk] at hok hlive
+      simp only at hok
+      unfold SizeOK
+      rw [hok]
+      congr 1
+      symm
+      rw [List.filter_eq_self.mpr]
+      intro x hx
+      simp [hlive x.2 (List.mem_map.mpr ⟨x, hx, rfl⟩)]
+    | arr sl s =>
+      rw [hk] at hok hlive
+      simp only at hok
+      unfold SizeOK
+      rw [hok.1]
+      congr 1
+      symm
+      rw [List.filter_eq_self.mpr]
+      intro x hx
+      simp [slotLive, hlive x.2 (List.mem_map.mpr ⟨x, hx, rfl⟩)]
+  · rw [hk0]
+    apply sizeOK_congr _ (h.inv.sizes c n0 h0)
+    intro y hy
+    exact h.isTomb_kid h0 hne hy
+
+theorem next_stamps (h : Stp L b b' d hd pn K' ns bury tm d') : ∀ c n, d'.find c = some n →
+    St L b' n.c ∧ (∀ t, n.d = some t → St L b' t) ∧ ∀ o ∈ ordIds n.kind, St L b' o := by
+  intro c n hf
+  rcases h.inversion hf with ⟨rfl, rfl⟩ | ⟨hn, rfl⟩ | ⟨hne, _, n0, h0, hk0, _, hc0, hd0⟩
+  · obtain ⟨s1, s2, _⟩ := h.inv.stamps c pn h.hp
+    refine ⟨s1.mono h.bb, fun t ht => (s2 t ht).mono h.bb, ?_⟩
+    simp only
+    cases hK : K' with
+    | elem v => simp [ordIds]
+    | obj m s => simp [ordIds]
+    | arr sl s => exact (h.shape_arr hK).2
+  · have hst : ∀ x ∈ ids ns, St L b' x := by
+      intro x hx
+      obtain ⟨e1, e2, _, e4⟩ := h.newst x hx
+      exact ⟨e1, Or.inr ⟨e2, e4⟩⟩
+    obtain ⟨ts, ts', hb⟩ := h.block
+    refine ⟨hst _ (List.mem_map.mpr ⟨n, hn, rfl⟩), (fun t ht => by rw [hb.live n hn] at ht; cases ht), ?_⟩
+    have hok := h.nodeok n hn
+    unfold NodeOK at hok
+    cases hk : n.kind with
+    | elem v => simp [ordIds]
+    | obj m s => simp [ordIds]
+    | arr sl s =>
+      rw [hk] at hok
+      simp only at hok
+      intro o ho
+      simp only [ordIds] at ho
+      rw [hok.2] at ho
+      obtain ⟨nc, hnc, rfl, _⟩ := h.new_kid hn (by rw [hk]; exact ho)
+      exact hst _ (List.mem_map.mpr ⟨nc, hnc, rfl⟩)
+  · obtain ⟨s1, s2, s3⟩ := h.inv.stamps c n0 h0
+    refine ⟨by rw [hc0]; exact s1.mono h.bb, ?_, by rw [hk0]; exact fun o ho => (s3 o ho).mono h.bb⟩
+    intro t ht
+    rcases hd0 with ⟨e, _, _⟩ | ⟨t', e, hst, _⟩
+    · exact (s2 t (e ▸ ht)).mono h.bb
+    · rw [e] at ht
+      simp only [Option.some.injEq] at ht
+      exact ht ▸ hst
+
+theorem next_ordnd (h : Stp L b b' d hd pn K' ns bury tm d') : ∀ c n, d'.find c = some n → (ordIds n.kind).Nodup := by
+  intro c n hf
+  rcases h.inversion hf with ⟨rfl, rfl⟩ | ⟨hn, rfl⟩ | ⟨_, _, n0, h0, hk0, _, _, _⟩
+  · simp only
+    cases hK : K' with
+    | elem v => simp [ordIds]
+    | obj m s => simp [ordIds]
+    | arr sl s => exact (h.shape_arr hK).1
+  · have hok := h.nodeok n hn
+    obtain ⟨ts, ts', hb⟩ := h.block
+    have hinj := hb.inj n hn
+    unfold NodeOK at hok
+    cases hk : n.kind with
+    | elem v => simp [ordIds]
+    | obj m s => simp [ordIds]
+    | arr sl s =>
+      rw [hk] at hok hinj
+      simp only at hok
+      simp only [ordIds]
+      rw [hok.2]; exact hinj
+  · rw [hk0]; exact h.inv.ordnd c n0 h0
+
+theorem next_scalar (h : Stp L b b' d hd pn K' ns bury tm d') :
+    ∀ c n v, d'.find c = some n → n.kind = .elem v → Scalar v := by
+  intro c n v hf hk
+  rcases h.inversion hf with ⟨rfl, rfl⟩ | ⟨hn, rfl⟩ | ⟨_, _, n0, h0, hk0, _, _, _⟩
+  · exact (h.shape_not_elem hk).elim
+  · have hok := h.nodeok n hn
+    unfold NodeOK at hok
+    rw [hk] at hok
+    exact hok
+  · exact h.inv.scalar c n0 v h0 (hk0 ▸ hk)
+
+theorem next_linked (h : Stp L b b' d hd pn K' ns bury tm d') : ∀ c n, d'.find c = some n → n.d = none →
+    c = Ts.oldest ∨ ∃ p pn', n.parent = some p ∧ d'.find p = some pn' ∧ c ∈ kids pn'.kind := by
+  intro c n hf hlive
+  obtain ⟨rk, hr⟩ := h.inv.acyc
+  -- an old node that references a child is still there with the same children, unless it is `hd`
+  have oldparent : ∀ (p : Ts) (np : DNode) (x : Ts), d.find p = some np → x ∈ kids np.kind → p ≠ hd →
+      ∃ np', d'.find p = some np' ∧ x ∈ kids np'.kind := by
+    intro p np x hp hx hne
+    by_cases hb : (bury p).isSome ∨ (tm p).isSome
+    · have hpk : p ∈ kids pn.kind := by
+        rcases hb with hb | hb
+        · obtain ⟨t, ht⟩ := Option.isSome_iff_exists.mp hb; exact h.bury_kid ht
+        · obtain ⟨t, ht⟩ := Option.isSome_iff_exists.mp hb; exact h.tm_kid ht
+      cases hf' : d'.find p with
+      | none =>
+        -- a buried element: it has no children
+        have := h.find' p
+        rw [hf', if_neg hne] at this
+        cases hbp : bury p with
+        | some t =>
+          simp only [hbp, hp, fun1] at this
+          split at this
+          · rename_i v hkv; rw [hkv] at hx; simp [kids] at hx
+          · cases this
+        | none =>
+          simp only [hbp] at this
+          cases htp : tm p with
+          | some t => simp [htp, hp, setD] at this
+          | none => simp [hbp, htp] at hb
+      | some np' =>
+        rcases h.inversion hf' with ⟨e, _⟩ | ⟨hn, e⟩ | ⟨_, _, n0, h0, hk0, _, _, _⟩
+        · exact absurd e hne
+        · exact absurd (List.mem_map.mpr ⟨np', hn, e⟩) (h.kid_not_new hpk)
+        · rw [hp] at h0
+          simp only [Option.some.injEq] at h0
+          subst h0
+          exact ⟨np', rfl, hk0 ▸ hx⟩
+    · have h2 : bury p = none := by
+        cases hbp : bury p with
+        | none => rfl
+        | some t => exact absurd (Or.inl (by simp [hbp])) hb
+      have h3 : tm p = none := by
+        cases hbp : tm p with
+        | none => rfl
+        | some t => exact absurd (Or.inr (by simp [hbp])) hb
+      exact ⟨np, h.find_old hp hne h2 h3, hx⟩
+  rcases h.inversion hf with ⟨rfl, rfl⟩ | ⟨hn, rfl⟩ | ⟨hne, _, n0, h0, hk0, hp0, _, hd0⟩
+  · rcases h.inv.linked c pn h.hp hlive with e | ⟨p, np, h1, h2, h3⟩
+    · exact Or.inl e
+    · have hpne : p ≠ c := by
+        intro e
+        have := hr p np h2 c h3
+        rw [e] at this
+        exact Nat.lt_irrefl _ this
+      obtain ⟨np', h4, h5⟩ := oldparent p np c h2 h3 hpne
+      exact Or.inr ⟨p, np', h1, h4, h5⟩
+  · rcases h.lnk n hn with ⟨h1, h2⟩ | ⟨p, hp, h1, h2⟩
+    · exact Or.inr ⟨hd, _, h2, h.find_hd, h1⟩
+    · exact Or.inr ⟨p.c, p, h1, h.find_new hp, h2⟩
+  · rcases hd0 with ⟨e, hb0, _⟩ | ⟨t, e, _, _⟩
+    · rw [e] at hlive
+      rcases h.inv.linked c n0 h0 hlive with e' | ⟨p, np, h1, h2, h3⟩
+      · exact Or.inl e'
+      · by_cases hph : p = hd
+        · subst hph
+          rw [h.hp] at h2
+          simp only [Option.some.injEq] at h2
+          subst h2
+          exact Or.inr ⟨p, _, by rw [hp0]; exact h1, h.find_hd, h.keep c h3 hb0⟩
+        · obtain ⟨np', h4, h5⟩ := oldparent p np c h2 h3 hph
+          exact Or.inr ⟨p, np', by rw [hp0]; exact h1, h4, h5⟩
+    · rw [e] at hlive; cases hlive
+
+/-- the invariant after the step -/
+theorem next (h : Stp L b b' d hd pn K' ns bury tm d') (hsize : SizeOK d' K') : DInv L b' d' :=
+  ⟨h.next_wf, h.next_acyc, h.next_root, h.next_sizes hsize, h.next_stamps, h.next_ordnd,
+    h.next_linked, h.next_scalar⟩
+
+/-- tombstone flags of the children of `hd` after the step -/
+theorem isTomb_old_kid (h : Stp L b b' d hd pn K' ns bury tm d') {x : Ts} (hx : x ∈ kids pn.kind)
+    (h2 : bury x = none) (h3 : tm x = none) : d'.isTomb x = d.isTomb x := by
+  obtain ⟨nx, hnx, _⟩ := h.kid_in hx
+  exact isTomb_of_find ((h.find_old hnx (h.kid_ne_hd hx) h2 h3).trans hnx.symm)
+
+theorem isTomb_tm (h : Stp L b b' d hd pn K' ns bury tm d') {x t : Ts} (h2 : bury x = none) (h3 : tm x = some t) :
+    d'.isTomb x = true := by
+  have hx := h.tm_kid h3
+  obtain ⟨nx, hnx, _⟩ := h.kid_in hx
+  unfold Doc.isTomb
+  rw [h.find', if_neg (h.kid_ne_hd hx), h2, h3, hnx]
+  rfl
+
+/-- what the frame property needs -/
+theorem same (h : Stp L b b' d hd pn K' ns bury tm d') :
+    Same d d' hd (fun x => (bury x).isSome ∨ (tm x).isSome) := by
+  intro c n hf hne hnt
+  have h2 : bury c = none := by
+    cases hbp : bury c with
+    | none => rfl
+    | some t => exact absurd (Or.inl (by simp [hbp])) hnt
+  have h3 : tm c = none := by
+    cases hbp : tm c with
+    | none => rfl
+    | some t => exact absurd (Or.inr (by simp [hbp])) hnt
+  exact h.find_old hf hne h2 h3
+
+theorem tk_kid (h : Stp L b b' d hd pn K' ns bury tm d') (x : Ts) (hx : (bury x).isSome ∨ (tm x).isSome) :
+    x ∈ kids pn.kind := by
+  rcases hx with hb | hb
+  · obtain ⟨t, ht⟩ := Option.isSome_iff_exists.mp hb; exact h.bury_kid ht
+  · obtain ⟨t, ht⟩ := Option.isSome_iff_exists.mp hb; exact h.tm_kid ht
+
+end Stp
+
+/-! ## 4. the local operations, one by one -/
+
+theorem next_ts (L : OpId) : L.next.ts = ⟨L.era, L.lamport + 1, L.cuid, 0⟩ := rfl
+
+/-- everything in the table is older than the timestamp of the next local operation -/
+theorem cmp_lt_of_st {L : OpId} {t : Ts} (h : St L 0 t) : t.cmp L.next.ts = .lt := by
+  obtain ⟨h1, h2⟩ := h
+  have h3 : t.lamport ≤ L.lamport := by
+    rcases h2 with h2 | h2
+    · exact h2
+    · omega
+  have a1 : ¬ L.next.ts.era < t.era := by simp only [next_ts]; omega
+  have a2 : ¬ t.era < L.next.ts.era := by simp only [next_ts]; omega
+  have a3 : ¬ L.next.ts.lamport < t.lamport := by simp only [next_ts]; omega
+  have a4 : t.lamport < L.next.ts.lamport := by simp only [next_ts]; omega
+  unfold Ts.cmp
+  rw [if_neg a1, if_neg a2, if_neg a3, if_pos a4]
+
+theorem timeOf_lt {L : OpId} {d : Doc} (I : DInv L 0 d) {c : Ts} {n : DNode} (hf : d.find c = some n) :
+    (d.timeOf c).cmp L.next.ts = .lt := by
+  obtain ⟨s1, s2, _⟩ := I.stamps c n hf
+  simp only [Doc.timeOf, hf]
+  cases hd : n.d with
+  | none => exact cmp_lt_of_st s1
+  | some t => exact cmp_lt_of_st (s2 t hd)
+
+theorem alFind_split {α : Type} {k : String} {c : α} : ∀ {m : List (String × α)}, alFind k m = some c →
+    ∃ A B, m = A ++ (k, c) :: B ∧ alFind k A = none ∧ ∀ e, alSet k e m = A ++ (k, e) :: B := by
+  intro m
+  induction m with
+  | nil => intro h; simp [alFind] at h
+  | cons x r ih =>
+    obtain ⟨k0, c0⟩ := x
+    intro h
+    simp only [alFind] at h
+    by_cases h0 : k0 = k
+    · simp only [h0, if_true, Option.some.injEq] at h
+      subst h; subst h0
+      exact ⟨[], r, rfl, rfl, fun e => by simp [alSet]⟩
+    · simp only [h0, if_false] at h
+      obtain ⟨A, B, e1, e2, e3⟩ := ih h
+      refine ⟨(k0, c0) :: A, B, by rw [e1]; rfl, by simp [alFind, h0, e2], fun e => ?_⟩
+      simp [alSet, h0, e3 e]
+
+/-- the node buried by a put / an update -/
+def buryOf (o : Option Ts) (t : Ts) : Ts → Option Ts := fun x => if o = some x then some t else none
+
+theorem buryOf_none (t x : Ts) : buryOf none t x = none := by simp [buryOf]
+theorem buryOf_self (o t : Ts) : buryOf (some o) t o = some t := by simp [buryOf]
+theorem buryOf_ne {o t x : Ts} (h : x ≠ o) : buryOf (some o) t x = none := by
+  simp only [buryOf, Option.some.injEq]
+  rw [if_neg (fun e => h e.symm)]
+theorem buryOf_some {o : Option Ts} {t x t' : Ts} (h : buryOf o t x = some t') : o = some x ∧ t' = t := by
+  unfold buryOf at h
+  split at h
+  · rename_i e; exact ⟨e, by simpa using h.symm⟩
+  · cases h
+
+/-- DocPut on an object: the outcome, the step, the size -/
+theorem put_run {L : OpId} {d : Doc} {hd : Ts} {pn : DNode} {m : List (String × Ts)} {s : Int}
+    (I : DInv L 0 d) (hp : d.find hd = some pn) (hk : pn.kind = .obj m s) (k : String) (v : JVal)
+    (hnn : v.hasNull = false) :
+    ∃ ns ts' s' d', createNode hd L.next.ts v = .ok (ns, L.next.ts, ts') ∧
+      d.putInObject hd k v L.next.ts =
+        .ok (d', (alFind k m).bind (fun c => if d.isTomb c then none else some c)) ∧
+      Stp L 0 ts'.delim d hd pn (.obj (alSet k L.next.ts m) s') ns (buryOf (alFind k m) L.next.ts)
+        (fun _ => none) d' ∧
+      SizeOK d' (.obj (alSet k L.next.ts m) s') := by
+  obtain ⟨⟨ns, c, ts'⟩, hc⟩ := createNode_ok hd L.next.ts v hnn
+  have hroot := createNode_root hc
+  subst hroot
+  obtain ⟨hblock, _, n0, rest, hns, hn0c, hn0p⟩ := createNode_spec hd L.next.ts v _ hc
+  simp only at hblock hns
+  obtain ⟨hnodeok, hlnk⟩ := createNode_spec2 hd L.next.ts v _ hc
+  simp only at hnodeok hlnk
+  have hnewst := block_newst (L := L) hblock rfl rfl
+  have hfresh : Fresh d ns := fresh_of_newst I hnewst
+  have hpre : PutPre d hd v L.next.ts pn m s ns ts' := ⟨I.wf, hp, hk, hc, hfresh⟩
+  have hpc := find_some_c hp
+  have hlen : 1 ≤ ns.length := hpre.ns_length_pos
+  have hts' : ts'.delim = ns.length := by rw [hblock.next]; simp [addDelim, next_ts]
+  have hvnd : (m.map (·.2)).Nodup := hpre.vals_nodup
+  have hkids : kids pn.kind = m.map (·.2) := by rw [hk]; rfl
+  have hstts : St L ts'.delim L.next.ts := ⟨rfl, Or.inr ⟨rfl, by rw [hts']; exact hlen⟩⟩
+  have hn0mem : n0 ∈ ns := by rw [hns]; simp
+  -- the parts of the step that do not depend on the case
+  have mk : ∀ (s' : Int) (d' : Doc),
+      (∀ c, d'.find c = if c = hd then some { pn with kind := .obj (alSet k L.next.ts m) s' } else
+        match buryOf (alFind k m) L.next.ts c with
+        | some t => fun1 t (d.find c)
+        | none => (nfind ns c).or (d.find c)) →
+      (ids d'.table).Nodup →
+      Stp L 0 ts'.delim d hd pn (.obj (alSet k L.next.ts m) s') ns (buryOf (alFind k m) L.next.ts)
+        (fun _ => none) d' := by
+    intro s' d' hfind hnd
+    refine ⟨I, hp, hfind, hnd, ⟨_, _, hblock⟩, hnewst, Nat.zero_le _, hnodeok, ?_, ?_, ?_, ?_, ?_, ?_, ?_⟩
+    · intro n hn
+      rcases hlnk n hn with ⟨h1, h2⟩ | h
+      · refine Or.inl ⟨?_, h2⟩
+        simp only [List.mem_singleton] at h1
+        rw [h1]
+        simp only [kids]
+        cases hf : alFind k m with
+        | none => rw [alSet_vals_none _ hf]; simp
+        | some oldC =>
+          obtain ⟨A, B, _, _, e3⟩ := alFind_split hf
+          rw [e3]; simp
+      · exact Or.inr h
+    · intro x t hx
+      rcases hx with hx | hx
+      · obtain ⟨e1, e2⟩ := buryOf_some hx
+        exact ⟨by rw [hkids]; exact alFind_mem_vals e1, e2 ▸ hstts⟩
+      · cases hx
+    · intro x t hx
+      obtain ⟨e1, _⟩ := buryOf_some hx
+      simp only [kids]
+      exact (alSet_vals_some hvnd e1 hpre.ts_notin).2.1
+    · intro c hc
+      simp only [kids] at hc
+      obtain ⟨x, hx, rfl⟩ := List.mem_map.mp hc
+      rcases mem_alSet _ _ _ _ hx with e | e
+      · exact Or.inr ⟨n0, hn0mem, by rw [e]; exact hn0c, hn0p⟩
+      · exact Or.inl (by rw [hkids]; exact List.mem_map.mpr ⟨x, e, rfl⟩)
+    · intro c hc hb
+      rw [hkids] at hc
+      simp only [kids]
+      cases hf : alFind k m with
+      | none => rw [alSet_vals_none _ hf]; exact List.mem_append_left _ hc
+      | some oldC =>
+        obtain ⟨A, B, e1, _, e3⟩ := alFind_split hf
+        have hne : c ≠ oldC := by
+          intro e
+          rw [hf, e, buryOf_self] at hb
+          cases hb
+        rw [e3]
+        rw [e1] at hc
+        simp only [List.map_append, List.map_cons, List.mem_append, List.mem_cons] at hc ⊢
+        rcases hc with h | h | h
+        · exact Or.inl h
+        · exact absurd h hne
+        · exact Or.inr (Or.inr h)
+    · simp only [kids]
+      cases hf : alFind k m with
+      | none =>
+        rw [alSet_vals_none _ hf, List.nodup_append]
+        refine ⟨hvnd, by simp, ?_⟩
+        intro a ha b hb
+        simp only [List.mem_singleton] at hb
+        subst hb
+        intro e; subst e; exact hpre.ts_notin ha
+      | some oldC => exact (alSet_vals_some hvnd hf hpre.ts_notin).1
+    · rw [hk]; trivial
+  cases hf : alFind k m with
+  | none =>
+    have hrun := put_new hpre hf
+    refine ⟨ns, ts', s + 1, (d.addAll ns).set { pn with kind := .obj (alSet k L.next.ts m) (s + 1) }, hc,
+      by rw [hrun]; rfl, ?_⟩
+    have hstp := mk (s + 1) ((d.addAll ns).set { pn with kind := .obj (alSet k L.next.ts m) (s + 1) }) (by
+      intro c
+      rw [find_set, find_addAll, hf]
+      simp only [hpc, buryOf_none]
+      by_cases e : c = hd
+      · simp [e]
+      · have : ¬ hd = c := fun e' => e e'.symm
+        simp [e, this]) (nodup_set _ (nodup_addAll ns I.wf.nodup))
+    rw [hf] at hstp
+    refine ⟨hstp, ?_⟩
+    generalize (d.addAll ns).set { pn with kind := .obj (alSet k L.next.ts m) (s + 1) } = D at hstp ⊢
+    -- size
+    have hsz := I.sizes hd pn hp
+    rw [hk] at hsz
+    simp only [SizeOK] at hsz ⊢
+    rw [alSet_of_none k _ m hf, List.filter_append, List.length_append]
+    have h1 : (m.filter fun e => !D.isTomb e.2) = m.filter fun e => !d.isTomb e.2 := by
+      apply List.filter_congr
+      intro x hx
+      rw [hstp.isTomb_old_kid (by rw [hkids]; exact List.mem_map.mpr ⟨x, hx, rfl⟩) (buryOf_none _ _) rfl]
+    have h2 := hstp.isTomb_new hn0mem
+    rw [hn0c] at h2
+    rw [h1, hsz]
+    simp [h2]
+  | some oldC =>
+    obtain ⟨no, hno, _⟩ := hpre.old_find hf
+    have hlt := timeOf_lt I hno
+    have hrun := put_win hpre hf hlt
+    have hone : oldC ≠ hd := by
+      obtain ⟨rk, hr⟩ := I.acyc
+      intro e
+      have := hr hd pn hp oldC (by rw [hkids]; exact alFind_mem_vals hf)
+      rw [e] at this
+      exact Nat.lt_irrefl _ this
+    have holdnew : nfind ns oldC = none := by
+      rw [nfind_none_iff]
+      intro hmem
+      rw [hfresh oldC hmem] at hno; cases hno
+    refine ⟨ns, ts', if d.isTomb oldC then s + 1 else s,
+      ((d.addAll ns).set { pn with kind := .obj (alSet k L.next.ts m) (if d.isTomb oldC then s + 1 else s) }).funeral
+        oldC L.next.ts, hc, by rw [hrun]; rfl, ?_⟩
+    have hstp := mk (if d.isTomb oldC then s + 1 else s)
+      (((d.addAll ns).set { pn with kind := .obj (alSet k L.next.ts m) (if d.isTomb oldC then s + 1 else s) }).funeral
+        oldC L.next.ts) (by
+      intro c
+      rw [find_funeral, find_set, find_set, find_addAll, find_addAll, hf]
+      simp only [hpc]
+      by_cases e : c = hd
+      · rw [e]
+        have : ¬ hd = oldC := fun e' => hone e'.symm
+        simp [this]
+      · have e' : ¬ hd = c := fun e' => e e'.symm
+        by_cases e2 : c = oldC
+        · subst e2
+          have : ¬ hd = c := fun e' => hone e'.symm
+          simp [e, this, buryOf_self, holdnew]
+        · simp [e, e', e2, buryOf_ne e2]) (nodup_funeral _ _ (nodup_set _ (nodup_addAll ns I.wf.nodup)))
+    rw [hf] at hstp
+    refine ⟨hstp, ?_⟩
+    generalize ((d.addAll ns).set { pn with kind := .obj (alSet k L.next.ts m) (if d.isTomb oldC then s + 1 else s) }).funeral
+        oldC L.next.ts = D at hstp ⊢
+    -- size
+    have hsz := I.sizes hd pn hp
+    rw [hk] at hsz
+    obtain ⟨A, B, e1, _, e3⟩ := alFind_split hf
+    simp only [SizeOK] at hsz ⊢
+    rw [e3]
+    rw [e1] at hsz hvnd
+    have hcong : ∀ (X : List (String × Ts)), (∀ x ∈ X, x.2 ∈ m.map (·.2) ∧ x.2 ≠ oldC) →
+        (X.filter fun e => !D.isTomb e.2) = X.filter fun e => !d.isTomb e.2 := by
+      intro X hX
+      apply List.filter_congr
+      intro x hx
+      obtain ⟨hx1, hx2⟩ := hX x hx
+      rw [hstp.isTomb_old_kid (by rw [hkids]; exact hx1) (buryOf_ne hx2) rfl]
+    simp only [List.map_append, List.map_cons, List.nodup_append, List.nodup_cons, List.mem_cons] at hvnd
+    have hA : ∀ x ∈ A, x.2 ∈ m.map (·.2) ∧ x.2 ≠ oldC := by
+      intro x hx
+      refine ⟨by rw [e1]; simp only [List.map_append, List.mem_append]; exact Or.inl (List.mem_map.mpr ⟨x, hx, rfl⟩), ?_⟩
+      intro e
+      exact hvnd.2.2 x.2 (List.mem_map.mpr ⟨x, hx, rfl⟩) oldC (Or.inl rfl) e
+    have hB : ∀ x ∈ B, x.2 ∈ m.map (·.2) ∧ x.2 ≠ oldC := by
+      intro x hx
+      refine ⟨by rw [e1]; simp only [List.map_append, List.map_cons, List.mem_append, List.mem_cons]; exact Or.inr (Or.inr (List.mem_map.mpr ⟨x, hx, rfl⟩)), ?_⟩
+      intro e
+      exact hvnd.2.1.1 (e ▸ List.mem_map.mpr ⟨x, hx, rfl⟩)
+    have h2 := hstp.isTomb_new hn0mem
+    rw [hn0c] at h2
+    rw [List.filter_append, List.filter_cons, hcong A hA, hcong B hB]
+    rw [List.filter_append, List.filter_cons] at hsz
+    simp only [h2, Bool.not_false, if_true, List.length_append, List.length_cons]
+    by_cases ht : d.isTomb oldC = true
+    · simp only [ht, Bool.not_true, Bool.false_eq_true, if_false, List.length_append, if_true] at hsz ⊢
+      rw [hsz]; push_cast; omega
+    · simp only [ht, Bool.not_false, if_true, List.length_append, List.length_cons, Bool.false_eq_true,
+        if_false] at hsz ⊢
+      exact hsz
+
+theorem nfind_nil (c : Ts) : nfind [] c = none := by simp [nfind]
+
+theorem remove_err {d : Doc} {hd : Ts} {pn : DNode} {m : List (String × Ts)} {s : Int}
+    (hp : d.find hd = some pn) (hk : pn.kind = .obj m s) (k : String) (ts : Ts)
+    (h : alFind k m = none ∨ ∃ c, alFind k m = some c ∧ d.isTomb c = true) :
+    d.deleteInObject hd k ts true = .err Err.noOp := by
+  unfold Doc.deleteInObject
+  rw [findObj_some_iff.mpr ⟨hp, hk⟩]
+  rcases h with h | ⟨c, h, ht⟩
+  · simp [h]
+  · simp [h, ht]
+
+/-- DocRemove of a live key: the outcome, the step, the size -/
+theorem remove_run {L : OpId} {d : Doc} {hd : Ts} {pn : DNode} {m : List (String × Ts)} {s : Int}
+    (I : DInv L 0 d) (hp : d.find hd = some pn) (hk : pn.kind = .obj m s) (k : String) {c : Ts}
+    (hf : alFind k m = some c) (hlive : d.isTomb c = false) :
+    ∃ d', d.deleteInObject hd k L.next.ts true = .ok (d', some c) ∧
+      Stp L 0 1 d hd pn (.obj m (s - 1)) [] (fun _ => none) (buryOf (some c) L.next.ts) d' ∧
+      SizeOK d' (.obj m (s - 1)) := by
+  have hkids : kids pn.kind = m.map (·.2) := by rw [hk]; rfl
+  have hck : c ∈ kids pn.kind := by rw [hkids]; exact alFind_mem_vals hf
+  obtain ⟨nc, hnc, _⟩ := I.wf.child hd pn hp c hck
+  have hlt := timeOf_lt I hnc
+  have hpc := find_some_c hp
+  have hvnd : (m.map (·.2)).Nodup := by have := I.wf.inj hd pn hp; rwa [hkids] at this
+  have hne : c ≠ hd := by
+    obtain ⟨rk, hr⟩ := I.acyc
+    intro e
+    have := hr hd pn hp c hck
+    rw [e] at this
+    exact Nat.lt_irrefl _ this
+  have hrun : d.deleteInObject hd k L.next.ts true =
+      .ok ((d.set { pn with kind := .obj m (s - 1) }).makeTomb c L.next.ts, some c) := by
+    unfold Doc.deleteInObject
+    rw [findObj_some_iff.mpr ⟨hp, hk⟩]
+    simp [hf, hlive, hlt]
+  refine ⟨_, hrun, ?_⟩
+  have hstp : Stp L 0 1 d hd pn (.obj m (s - 1)) [] (fun _ => none) (buryOf (some c) L.next.ts)
+      ((d.set { pn with kind := .obj m (s - 1) }).makeTomb c L.next.ts) := by
+    refine ⟨I, hp, ?_, nodup_makeTomb _ _ (nodup_set _ I.wf.nodup), ⟨L.next.ts, L.next.ts, block_nil _⟩,
+      ?_, Nat.zero_le _, ?_, ?_, ?_, ?_, ?_, ?_, hvnd, ?_⟩
+    · intro x
+      rw [find_makeTomb, find_set, find_set]
+      simp only [hpc, nfind_nil]
+      by_cases e : x = hd
+      · rw [e]
+        have : ¬ hd = c := fun e' => hne e'.symm
+        simp [this]
+      · have e' : ¬ hd = x := fun e' => e e'.symm
+        by_cases e2 : x = c
+        · subst e2
+          simp [e, e', buryOf_self, setD]
+        · simp [e, e', e2, buryOf_ne e2]
+    · intro x hx; simp [ids] at hx
+    · intro n hn; cases hn
+    · intro n hn; cases hn
+    · intro x t hx
+      rcases hx with hx | hx
+      · cases hx
+      · obtain ⟨e1, e2⟩ := buryOf_some hx
+        simp only [Option.some.injEq] at e1
+        exact ⟨e1 ▸ hck, e2 ▸ ⟨rfl, Or.inr ⟨rfl, Nat.zero_lt_one⟩⟩⟩
+    · intro x t hx; cases hx
+    · exact fun x hx => Or.inl (by rw [hkids]; exact hx)
+    · exact fun x hx _ => by rw [hkids] at hx; exact hx
+    · rw [hk]; trivial
+  refine ⟨hstp, ?_⟩
+  generalize (d.set { pn with kind := .obj m (s - 1) }).makeTomb c L.next.ts = D at hstp ⊢
+  have hsz := I.sizes hd pn hp
+  rw [hk] at hsz
+  obtain ⟨A, B, e1, _, _⟩ := alFind_split hf
+  simp only [SizeOK] at hsz ⊢
+  rw [e1] at hsz hvnd ⊢
+  have hcong : ∀ (X : List (String × Ts)), (∀ x ∈ X, x.2 ∈ m.map (·.2) ∧ x.2 ≠ c) →
+      (X.filter fun e => !D.isTomb e.2) = X.filter fun e => !d.isTomb e.2 := by
+    intro X hX
+    apply List.filter_congr
+    intro x hx
+    obtain ⟨hx1, hx2⟩ := hX x hx
+    rw [hstp.isTomb_old_kid (by rw [hkids]; exact hx1) rfl (buryOf_ne hx2)]
+  simp only [List.map_append, List.map_cons, List.nodup_append, List.nodup_cons, List.mem_cons] at hvnd
+  have hA : ∀ x ∈ A, x.2 ∈ m.map (·.2) ∧ x.2 ≠ c := by
+    intro x hx
+    refine ⟨by rw [e1]; simp only [List.map_append, List.mem_append]; exact Or.inl (List.mem_map.mpr ⟨x, hx, rfl⟩), ?_⟩
+    intro e
+    exact hvnd.2.2 x.2 (List.mem_map.mpr ⟨x, hx, rfl⟩) c (Or.inl rfl) e
+  have hB : ∀ x ∈ B, x.2 ∈ m.map (·.2) ∧ x.2 ≠ c := by
+    intro x hx
+    refine ⟨by rw [e1]; simp only [List.map_append, List.map_cons, List.mem_append, List.mem_cons]; exact Or.inr (Or.inr (List.mem_map.mpr ⟨x, hx, rfl⟩)), ?_⟩
+    intro e
+    exact hvnd.2.1.1 (e ▸ List.mem_map.mpr ⟨x, hx, rfl⟩)
+  have h2 : D.isTomb c = true := hstp.isTomb_tm rfl (buryOf_self _ _)
+  rw [List.filter_append, List.filter_cons, hcong A hA, hcong B hB]
+  rw [List.filter_append, List.filter_cons] at hsz
+  simp only [h2, hlive, Bool.not_true, Bool.not_false, Bool.false_eq_true, if_false, if_true, List.length_append,
+    List.length_cons] at hsz ⊢
+  rw [hsz]; push_cast; omega
+
+/-! ### arrays: the generic walk over live slots -/
+
+theorem insertAtLive_spec {β : Type} (isLive : β → Bool) (ns : List β) : ∀ (l : List β) (pos : Nat),
+    pos ≤ (l.filter isLive).length →
+    ∃ pre suf, l = pre ++ suf ∧ insertAtLive isLive ns pos l = some (pre ++ ns ++ suf) ∧
+      (pre.filter isLive).length = pos := by
+  intro l
+  induction l with
+  | nil =>
+    intro pos h
+    have : pos = 0 := by simpa using h
+    subst this
+    exact ⟨[], [], rfl, by simp [insertAtLive], rfl⟩
+  | cons x xs ih =>
+    intro pos h
+    cases pos with
+    | zero => exact ⟨[], x :: xs, rfl, by simp [insertAtLive], rfl⟩
+    | succ p =>
+      by_cases hl : isLive x = true
+      · by_cases hp : p = 0
+        · subst hp
+          exact ⟨[x], xs, rfl, by simp [insertAtLive, hl], by simp [hl]⟩
+        · have h' : p ≤ (xs.filter isLive).length := by
+            simp only [List.filter_cons, hl, if_true, List.length_cons] at h; omega
+          obtain ⟨pre, suf, e1, e2, e3⟩ := ih p h'
+          refine ⟨x :: pre, suf, by rw [e1]; rfl, ?_, by simp [hl, e3]⟩
+          simp [insertAtLive, hl, hp, e2]
+      · have h' : p + 1 ≤ (xs.filter isLive).length := by
+          simp only [List.filter_cons, hl, Bool.false_eq_true, if_false] at h; exact h
+        obtain ⟨pre, suf, e1, e2, e3⟩ := ih (p + 1) h'
+        refine ⟨x :: pre, suf, by rw [e1]; rfl, ?_, by simp [hl, e3]⟩
+        simp [insertAtLive, hl, e2]
+
+theorem nthLive_some {β : Type} (isLive : β → Bool) : ∀ (l : List β) (p : Nat), p < (l.filter isLive).length →
+    ∃ x, nthLive isLive p l = some x := by
+  intro l
+  induction l with
+  | nil => intro p h; simp at h
+  | cons x xs ih =>
+    intro p h
+    by_cases hl : isLive x = true
+    · by_cases hp : p = 0
+      · exact ⟨x, by simp [nthLive, hl, hp]⟩
+      · have h' : p - 1 < (xs.filter isLive).length := by
+          simp only [List.filter_cons, hl, if_true, List.length_cons] at h; omega
+        obtain ⟨y, hy⟩ := ih (p - 1) h'
+        exact ⟨y, by simp [nthLive, hl, hp, hy]⟩
+    · have h' : p < (xs.filter isLive).length := by
+        simp only [List.filter_cons, hl, Bool.false_eq_true, if_false] at h; exact h
+      obtain ⟨y, hy⟩ := ih p h'
+      exact ⟨y, by simp [nthLive, hl, hy]⟩
+
+theorem slotLive_addAll {d : Doc} {ns : List DNode} (hf : Fresh d ns) {sl : List (Ts × Ts)}
+    (hin : ∀ s ∈ sl, (d.find s.2).isSome) : sl.filter (slotLive (d.addAll ns)) = sl.filter (slotLive d) := by
+  apply List.filter_congr
+  intro s hs
+  unfold slotLive
+  rw [DA.isTomb_addAll_old]
+  intro hmem
+  have := hin s hs
+  rw [hf s.2 hmem] at this
+  cases this
+
+/-- the step of an operation that only creates nodes and relinks `hd` -/
+theorem stp_create {L : OpId} {d : Doc} {hd : Ts} {pn : DNode} {ts ts' : Ts} {ns : List DNode} {cs : List Ts}
+    {K' : DKind} (I : DInv L 0 d) (hp : d.find hd = some pn)
+    (hts : ts = L.next.ts) (hblock : Block ts ns ts') (hnodeok : ∀ n ∈ ns, NodeOK n) (hlnk : Lnk ns cs hd)
+    (hcs : ∀ c ∈ cs, ∃ nc ∈ ns, nc.c = c ∧ nc.parent = some hd)
+    (hcsK : ∀ c ∈ cs, c ∈ kids K')
+    (hK : ∀ c ∈ kids K', c ∈ kids pn.kind ∨ c ∈ cs) (hkeep : ∀ c ∈ kids pn.kind, c ∈ kids K')
+    (hKnd : (kids K').Nodup) (hshape : ShapeOK L ts'.delim pn.kind K') :
+    Stp L 0 ts'.delim d hd pn K' ns (fun _ => none) (fun _ => none) ((d.addAll ns).set { pn with kind := K' }) := by
+  subst hts
+  have hnewst := block_newst (L := L) hblock rfl rfl
+  have hpc := find_some_c hp
+  refine ⟨I, hp, ?_, nodup_set _ (nodup_addAll ns I.wf.nodup), ⟨_, _, hblock⟩, hnewst, Nat.zero_le _, hnodeok,
+    ?_, ?_, ?_, ?_, fun c hc _ => hkeep c hc, hKnd, hshape⟩
+  · intro c
+    rw [find_set, find_addAll]
+    simp only [hpc]
+    by_cases e : c = hd
+    · simp [e]
+    · have : ¬ hd = c := fun e' => e e'.symm
+      simp [e, this]
+  · intro n hn
+    rcases hlnk n hn with ⟨h1, h2⟩ | h
+    · exact Or.inl ⟨hcsK _ h1, h2⟩
+    · exact Or.inr h
+  · intro x t hx; rcases hx with hx | hx <;> cases hx
+  · intro x t hx; cases hx
+  · intro c hc
+    rcases hK c hc with h | h
+    · exact Or.inl h
+    · exact Or.inr (hcs c h)
+
+/-- DocInsert into an array: the outcome, the step, the size -/
+theorem insert_run {L : OpId} {d : Doc} {hd : Ts} {pn : DNode} {slots : List (Ts × Ts)} {size : Int}
+    (I : DInv L 0 d) (hp : d.find hd = some pn) (hk : pn.kind = .arr slots size) (pos : Nat) (vs : List JVal)
+    (hpos : pos ≤ (slots.filter (slotLive d)).length) (hnn : JVal.hasNullList vs = false) :
+    ∃ ns cs ts' pre suf d' a, createArrItems hd L.next.ts vs = .ok (ns, cs, ts') ∧ slots = pre ++ suf ∧
+      (pre.filter (slotLive d)).length = pos ∧
+      d.insertLocalInArray hd pos L.next.ts vs = .ok (d', a) ∧
+      Stp L 0 ts'.delim d hd pn (.arr (pre ++ cs.map (fun c => (c, c)) ++ suf) (size + cs.length)) ns
+        (fun _ => none) (fun _ => none) d' ∧
+      SizeOK d' (.arr (pre ++ cs.map (fun c => (c, c)) ++ suf) (size + cs.length)) := by
+  obtain ⟨⟨ns, cs, ts'⟩, hc⟩ := createArrItems_ok hd L.next.ts vs hnn
+  obtain ⟨hblock, hcsnd, hcs⟩ := DA.createMany_block (p := hd) hc
+  obtain ⟨hnodeok, hlnk⟩ := createArrItems_spec2 hd L.next.ts vs ns cs ts' hc
+  have hnewst := block_newst (L := L) hblock rfl rfl
+  have hfresh : Fresh d ns := fresh_of_newst I hnewst
+  have hkids : kids pn.kind = slots.map (·.2) := by rw [hk]; rfl
+  have hin : ∀ s ∈ slots, (d.find s.2).isSome := by
+    intro s hs
+    obtain ⟨nc, hnc, _⟩ := I.wf.child hd pn hp s.2 (by rw [hkids]; exact List.mem_map.mpr ⟨s, hs, rfl⟩)
+    simp [hnc]
+  have hfilt := slotLive_addAll hfresh hin
+  obtain ⟨pre, suf, e1, e2, e3⟩ := insertAtLive_spec (slotLive (d.addAll ns)) (cs.map fun c => (c, c)) slots pos
+    (by rw [hfilt]; exact hpos)
+  have hanchor : ∃ a, (if pos = 0 then some Ts.oldest
+      else (nthLive (slotLive (d.addAll ns)) (pos - 1) slots).map (·.1)) = some a := by
+    by_cases h0 : pos = 0
+    · exact ⟨Ts.oldest, by simp [h0]⟩
+    · obtain ⟨x, hx⟩ := nthLive_some (slotLive (d.addAll ns)) slots (pos - 1) (by rw [hfilt]; omega)
+      exact ⟨x.1, by simp [h0, hx]⟩
+  obtain ⟨a, ha⟩ := hanchor
+  have hrun : d.insertLocalInArray hd pos L.next.ts vs =
+      .ok ((d.addAll ns).set { pn with kind := .arr (pre ++ cs.map (fun c => (c, c)) ++ suf) (size + cs.length) }, a) := by
+    unfold Doc.insertLocalInArray
+    rw [DA.findArr_some_iff.mpr ⟨hp, hk⟩]
+    simp only [createMany, hc, ha, e2]
+  have hpre3 : (pre.filter (slotLive d)).length = pos := by
+    rw [← e3]
+    congr 1
+    apply List.filter_congr
+    intro s hs
+    have := List.filter_congr (l := [s]) (p := slotLive (d.addAll ns)) (q := slotLive d)
+    have hs' : s ∈ slots := by rw [e1]; exact List.mem_append_left _ hs
+    unfold slotLive
+    rw [DA.isTomb_addAll_old]
+    intro hmem
+    have := hin s hs'
+    rw [hfresh s.2 hmem] at this
+    cases this
+  have hcsnew : ∀ c ∈ cs, c ∈ ids ns := by
+    intro c hc'
+    obtain ⟨nc, h1, h2, _⟩ := hcs c hc'
+    exact List.mem_map.mpr ⟨nc, h1, h2⟩
+  have hvnd : (slots.map (·.2)).Nodup := by have := I.wf.inj hd pn hp; rwa [hkids] at this
+  have hond : (slots.map (·.1)).Nodup := by have := I.ordnd hd pn hp; rwa [hk] at this
+  have hostamp : ∀ o ∈ slots.map (·.1), St L 0 o := by
+    have := (I.stamps hd pn hp).2.2; rwa [hk] at this
+  have hKkids : kids (.arr (pre ++ cs.map (fun c => (c, c)) ++ suf) (size + cs.length)) =
+      pre.map (·.2) ++ cs ++ suf.map (·.2) := by
+    simp [kids, Function.comp_def]
+  have hKord : (pre ++ cs.map (fun c => (c, c)) ++ suf).map (·.1) = pre.map (·.1) ++ cs ++ suf.map (·.1) := by
+    simp [Function.comp_def]
+  have hkidold : ∀ c ∈ slots.map (·.2), c ∉ cs := by
+    intro c hc' hcc
+    obtain ⟨s, hs, rfl⟩ := List.mem_map.mp hc'
+    have := hin s hs
+    rw [hfresh s.2 (hcsnew _ hcc)] at this
+    cases this
+  have hstp := stp_create (K' := .arr (pre ++ cs.map (fun c => (c, c)) ++ suf) (size + cs.length)) I hp rfl hblock
+    hnodeok hlnk hcs
+    (by intro c hc'; rw [hKkids]; simp [hc'])
+    (by
+      intro c hc'
+      rw [hKkids] at hc'
+      rw [hkids, e1]
+      simp only [List.mem_append, List.map_append] at hc' ⊢
+      tauto)
+    (by
+      intro c hc'
+      rw [hKkids]
+      rw [hkids, e1] at hc'
+      simp only [List.mem_append, List.map_append] at hc' ⊢
+      tauto)
+    (by
+      rw [hKkids]
+      rw [e1, List.map_append, List.nodup_append] at hvnd
+      rw [e1, List.map_append] at hkidold
+      rw [List.nodup_append, List.nodup_append]
+      refine ⟨⟨hvnd.1, hcsnd, ?_⟩, hvnd.2.1, ?_⟩
+      · intro a ha b hb e
+        exact hkidold a (List.mem_append_left _ ha) (e ▸ hb)
+      · intro a ha b hb e
+        rcases List.mem_append.mp ha with ha | ha
+        · exact hvnd.2.2 a ha b hb e
+        · exact hkidold b (List.mem_append_right _ hb) (e ▸ ha))
+    (by
+      rw [hk]
+      simp only [ShapeOK]
+      rw [hKord]
+      have hcsst : ∀ c ∈ cs, St L ts'.delim c := by
+        intro c hc'
+        obtain ⟨q1, q2, _, q4⟩ := hnewst c (hcsnew c hc')
+        exact ⟨q1, Or.inr ⟨q2, q4⟩⟩
+      have hdisj : ∀ o ∈ slots.map (·.1), o ∉ cs := by
+        intro o ho hoc
+        obtain ⟨q1, q2, _, _⟩ := hnewst o (hcsnew o hoc)
+        have := (hostamp o ho).2
+        omega
+      rw [e1, List.map_append] at hond hdisj hostamp
+      rw [List.nodup_append] at hond
+      refine ⟨?_, ?_⟩
+      · rw [List.nodup_append, List.nodup_append]
+        refine ⟨⟨hond.1, hcsnd, ?_⟩, hond.2.1, ?_⟩
+        · intro a ha b hb e
+          exact hdisj a (List.mem_append_left _ ha) (e ▸ hb)
+        · intro a ha b hb e
+          rcases List.mem_append.mp ha with ha | ha
+          · exact hond.2.2 a ha b hb e
+          · exact hdisj b (List.mem_append_right _ hb) (e ▸ ha)
+      · intro o ho
+        simp only [List.mem_append] at ho
+        rcases ho with (ho | ho) | ho
+        · exact (hostamp o (List.mem_append_left _ ho)).mono (Nat.zero_le _)
+        · exact hcsst o ho
+        · exact (hostamp o (List.mem_append_right _ ho)).mono (Nat.zero_le _))
+  refine ⟨ns, cs, ts', pre, suf, _, a, hc, e1, hpre3, hrun, hstp, ?_⟩
+  generalize (d.addAll ns).set { pn with kind := .arr (pre ++ cs.map (fun c => (c, c)) ++ suf) (size + cs.length) } = D
+    at hstp ⊢
+  have hsz := I.sizes hd pn hp
+  rw [hk] at hsz
+  simp only [SizeOK] at hsz ⊢
+  have hold : ∀ (X : List (Ts × Ts)), (∀ x ∈ X, x ∈ slots) → X.filter (slotLive D) = X.filter (slotLive d) := by
+    intro X hX
+    apply List.filter_congr
+    intro x hx
+    unfold slotLive
+    rw [hstp.isTomb_old_kid (by rw [hkids]; exact List.mem_map.mpr ⟨x, hX x hx, rfl⟩) rfl rfl]
+  have hnew : (cs.map fun c => (c, c)).filter (slotLive D) = cs.map fun c => (c, c) := by
+    rw [List.filter_eq_self]
+    intro x hx
+    obtain ⟨c, hc', rfl⟩ := List.mem_map.mp hx
+    obtain ⟨nc, h1, h2, _⟩ := hcs c hc'
+    have := hstp.isTomb_new h1
+    rw [h2] at this
+    simp [slotLive, this]
+  rw [List.filter_append, List.filter_append, hnew, hold pre (by intro x hx; rw [e1]; exact List.mem_append_left _ hx),
+    hold suf (by intro x hx; rw [e1]; exact List.mem_append_right _ hx)]
+  rw [e1, List.filter_append] at hsz
+  simp only [List.length_append, List.length_map] at hsz ⊢
+  rw [hsz]; push_cast; omega
+
+/-! ### deleting a range of live slots -/
+
+/-- the stamp a deleted child gets -/
+def tmOf (l : List ((Ts × Ts) × Ts)) (x : Ts) : Option Ts := (l.find? (fun st => st.1.2 = x)).map (·.2)
+
+def foldTomb (d : Doc) (l : List ((Ts × Ts) × Ts)) : Doc := l.foldl (fun acc x => acc.makeTomb x.1.2 x.2) d
+
+theorem find_foldTomb : ∀ (l : List ((Ts × Ts) × Ts)) (d : Doc), (l.map (·.1.2)).Nodup → ∀ c,
+    (foldTomb d l).find c = match tmOf l c with
+      | some t => setD t (d.find c)
+      | none => d.find c := by
+  intro l
+  induction l with
+  | nil => intro d _ c; simp [foldTomb, tmOf]
+  | cons x r ih =>
+    intro d hnd c
+    simp only [List.map_cons, List.nodup_cons] at hnd
+    have e : foldTomb d (x :: r) = foldTomb (d.makeTomb x.1.2 x.2) r := rfl
+    rw [e, ih _ hnd.2 c, find_makeTomb]
+    by_cases hc : x.1.2 = c
+    · subst hc
+      have hnone : tmOf r x.1.2 = none := by
+        unfold tmOf
+        rw [List.find?_eq_none.mpr]
+        · rfl
+        · intro y hy hyc
+          exact hnd.1 (List.mem_map.mpr ⟨y, hy, by simpa using hyc⟩)
+      have hsome : tmOf (x :: r) x.1.2 = some x.2 := by
+        unfold tmOf
+        rw [List.find?_cons_of_pos (by simp)]
+        rfl
+      rw [hnone, hsome]
+      simp [setD]
+    · have hc' : ¬ c = x.1.2 := fun e' => hc e'.symm
+      have : tmOf (x :: r) c = tmOf r c := by
+        unfold tmOf
+        rw [List.find?_cons_of_neg (by simpa using hc)]
+      rw [this]
+      simp [hc']
+
+theorem nodup_foldTomb : ∀ (l : List ((Ts × Ts) × Ts)) (d : Doc), (ids d.table).Nodup →
+    (ids (foldTomb d l).table).Nodup := by
+  intro l
+  induction l with
+  | nil => intro d h; exact h
+  | cons x r ih => intro d h; exact ih _ (nodup_makeTomb _ _ h)
+
+theorem tmOf_some {l : List ((Ts × Ts) × Ts)} {x t : Ts} (h : tmOf l x = some t) : ∃ s, ((s, x), t) ∈ l := by
+  unfold tmOf at h
+  cases hf : l.find? (fun st => st.1.2 = x) with
+  | none => simp [hf] at h
+  | some st =>
+    rw [hf] at h
+    simp only [Option.map_some, Option.some.injEq] at h
+    have h1 := List.mem_of_find?_eq_some hf
+    have h2 := List.find?_some hf
+    simp only [decide_eq_true_eq] at h2
+    obtain ⟨⟨s, y⟩, t'⟩ := st
+    simp only at h h2
+    subst h; subst h2
+    exact ⟨s, h1⟩
+
+theorem tmOf_isSome_iff {l : List ((Ts × Ts) × Ts)} {x : Ts} : (tmOf l x).isSome ↔ x ∈ l.map (·.1.2) := by
+  unfold tmOf
+  rw [Option.isSome_map, List.find?_isSome]
+  constructor
+  · rintro ⟨st, h1, h2⟩
+    exact List.mem_map.mpr ⟨st, h1, by simpa using h2⟩
+  · intro h
+    obtain ⟨st, h1, h2⟩ := List.mem_map.mp h
+    exact ⟨st, h1, by simpa using h2⟩
+
+theorem length_delimSeq : ∀ (n : Nat) (t : Ts), (delimSeq t n).length = n := by
+  intro n
+  induction n with
+  | zero => intro t; rfl
+  | succ n ih => intro t; simp [delimSeq, ih]
+
+theorem range_split {α : Type} (F : List α) (pos num : Nat) :
+    F = F.take pos ++ ((F.drop pos).take num ++ F.drop (pos + num)) := by
+  conv_lhs => rw [← List.take_append_drop pos F, ← List.take_append_drop num (F.drop pos), List.drop_drop]
+
+/-- DocDelete of a range of an array: the outcome, the step, the size -/
+theorem delete_run {L : OpId} {d : Doc} {hd : Ts} {pn : DNode} {slots : List (Ts × Ts)} {size : Int}
+    (I : DInv L 0 d) (hp : d.find hd = some pn) (hk : pn.kind = .arr slots size) (pos num : Nat)
+    (hrange : pos + num ≤ (slots.filter (slotLive d)).length) :
+    ∃ d', d.deleteLocalInArray hd pos num L.next.ts =
+        .ok (d', (((slots.filter (slotLive d)).drop pos).take num).map (·.1),
+          (((slots.filter (slotLive d)).drop pos).take num).map (·.2)) ∧
+      Stp L 0 num d hd pn (.arr slots (size - num)) [] (fun _ => none)
+        (tmOf ((((slots.filter (slotLive d)).drop pos).take num).zip (delimSeq L.next.ts num))) d' ∧
+      SizeOK d' (.arr slots (size - num)) ∧
+      slots.filter (slotLive d') =
+        (slots.filter (slotLive d)).take pos ++ (slots.filter (slotLive d)).drop (pos + num) ∧
+      ∀ s ∈ (slots.filter (slotLive d)).take pos ++ (slots.filter (slotLive d)).drop (pos + num),
+        tmOf ((((slots.filter (slotLive d)).drop pos).take num).zip (delimSeq L.next.ts num)) s.2 = none := by
+  generalize hlive : ((slots.filter (slotLive d)).drop pos).take num = live
+  generalize hF : slots.filter (slotLive d) = F at hlive hrange
+  have hkids : kids pn.kind = slots.map (·.2) := by rw [hk]; rfl
+  have hvnd : (slots.map (·.2)).Nodup := by have := I.wf.inj hd pn hp; rwa [hkids] at this
+  have hlen : live.length = num := by rw [← hlive, List.length_take, List.length_drop]; omega
+  have hsplit : F = F.take pos ++ (live ++ F.drop (pos + num)) := by rw [← hlive]; exact range_split F pos num
+  have hFsub : F.Sublist slots := by rw [← hF]; exact List.filter_sublist
+  have hFnd : (F.map (·.2)).Nodup := List.Nodup.sublist (List.Sublist.map _ hFsub) hvnd
+  have hlivesub : ∀ s ∈ live, s ∈ slots := by
+    intro s hs
+    apply hFsub.subset
+    rw [hsplit]; simp [hs]
+  have hlivend : (live.map (·.2)).Nodup := by
+    rw [hsplit] at hFnd
+    simp only [List.map_append, List.nodup_append] at hFnd
+    exact hFnd.2.1.1
+  set l := live.zip (delimSeq L.next.ts num) with hl
+  have hlmap : l.map (·.1.2) = live.map (·.2) := by
+    have : l.map Prod.fst = live := List.map_fst_zip (by rw [hlen, length_delimSeq])
+    rw [← this, List.map_map]; rfl
+  have hne : ∀ x ∈ kids pn.kind, x ≠ hd := by
+    obtain ⟨rk, hr⟩ := I.acyc
+    intro x hx e
+    have := hr hd pn hp x hx
+    rw [e] at this
+    exact Nat.lt_irrefl _ this
+  have htmhd : tmOf l hd = none := by
+    cases h : tmOf l hd with
+    | none => rfl
+    | some t =>
+      have : hd ∈ l.map (·.1.2) := tmOf_isSome_iff.mp (by simp [h])
+      rw [hlmap] at this
+      obtain ⟨s, hs, e⟩ := List.mem_map.mp this
+      exact absurd e (hne s.2 (by rw [hkids]; exact List.mem_map.mpr ⟨s, hlivesub s hs, rfl⟩))
+  have hfold := find_foldTomb l d (by rw [hlmap]; exact hlivend)
+  have hpc := find_some_c hp
+  have hrun : d.deleteLocalInArray hd pos num L.next.ts =
+      .ok ((foldTomb d l).set { pn with kind := .arr slots (size - num) }, live.map (·.1), live.map (·.2)) := by
+    unfold Doc.deleteLocalInArray
+    rw [DA.findArr_some_iff.mpr ⟨hp, hk⟩]
+    simp only []
+    rw [hF, hlive, if_neg (by omega)]
+    have : (List.foldl (fun acc x => acc.makeTomb x.1.2 x.2) d (live.zip (delimSeq L.next.ts num))).find hd = some pn := by
+      have := hfold hd
+      rw [htmhd] at this
+      exact this.trans hp
+    rw [this]
+    rfl
+  have hstp : Stp L 0 num d hd pn (.arr slots (size - num)) [] (fun _ => none) (tmOf l)
+      ((foldTomb d l).set { pn with kind := .arr slots (size - num) }) := by
+    refine ⟨I, hp, ?_, nodup_set _ (nodup_foldTomb l d I.wf.nodup), ⟨L.next.ts, L.next.ts, block_nil _⟩,
+      ?_, Nat.zero_le _, ?_, ?_, ?_, ?_, ?_, ?_, hvnd, ?_⟩
+    · intro x
+      rw [find_set, hfold]
+      simp only [hpc, nfind_nil]
+      by_cases e : x = hd
+      · rw [e]; simp
+      · have e' : ¬ hd = x := fun e' => e e'.symm
+        simp only [e, e', if_false]
+        cases tmOf l x <;> rfl
+    · intro x hx; simp [ids] at hx
+    · intro n hn; cases hn
+    · intro n hn; cases hn
+    · intro x t hx
+      rcases hx with hx | hx
+      · cases hx
+      · obtain ⟨s, hs⟩ := tmOf_some hx
+        obtain ⟨h1, h2⟩ := List.of_mem_zip hs
+        refine ⟨by rw [hkids]; exact List.mem_map.mpr ⟨(s, x), hlivesub _ h1, rfl⟩, ?_⟩
+        obtain ⟨i, hi, rfl⟩ := DC.mem_delimSeq.mp h2
+        exact ⟨rfl, Or.inr ⟨rfl, by simpa [addDelim, next_ts] using hi⟩⟩
+    · intro x t hx; cases hx
+    · exact fun x hx => Or.inl (by rw [hkids]; exact hx)
+    · exact fun x hx _ => by rw [hkids] at hx; exact hx
+    · rw [hk]
+      simp only [ShapeOK]
+      refine ⟨by have := I.ordnd hd pn hp; rwa [hk] at this, ?_⟩
+      intro o ho
+      have := (I.stamps hd pn hp).2.2
+      rw [hk] at this
+      exact (this o ho).mono (Nat.zero_le _)
+  refine ⟨_, hrun, hstp, ?_⟩
+  generalize (foldTomb d l).set { pn with kind := .arr slots (size - num) } = D at hstp ⊢
+  rw [and_comm, and_assoc]
+  have hFnd' := hFnd
+  rw [hsplit] at hFnd'
+  simp only [List.map_append, List.nodup_append] at hFnd'
+  have hnone : ∀ s ∈ F.take pos ++ F.drop (pos + num), tmOf l s.2 = none := by
+    intro s hs
+    cases h : tmOf l s.2 with
+    | none => rfl
+    | some t =>
+      have hm : s.2 ∈ l.map (·.1.2) := tmOf_isSome_iff.mp (by simp [h])
+      rw [hlmap] at hm
+      rcases List.mem_append.mp hs with hs | hs
+      · exact absurd rfl (hFnd'.2.2 s.2 (List.mem_map.mpr ⟨s, hs, rfl⟩) s.2 (List.mem_append_left _ hm))
+      · exact absurd rfl (hFnd'.2.1.2.2 s.2 hm s.2 (List.mem_map.mpr ⟨s, hs, rfl⟩))
+  refine ⟨hnone, ?_⟩
+  have hsz := I.sizes hd pn hp
+  rw [hk] at hsz
+  simp only [SizeOK] at hsz ⊢
+  have hslot : ∀ s ∈ slots, slotLive D s = ((tmOf l s.2).isNone && slotLive d s) := by
+    intro s hs
+    have hsk : s.2 ∈ kids pn.kind := by rw [hkids]; exact List.mem_map.mpr ⟨s, hs, rfl⟩
+    unfold slotLive
+    cases h : tmOf l s.2 with
+    | none => simp [hstp.isTomb_old_kid hsk rfl h]
+    | some t => simp [hstp.isTomb_tm rfl h]
+  have h1 : slots.filter (slotLive D) = F.filter (fun s => (tmOf l s.2).isNone) := by
+    rw [← hF, List.filter_filter]
+    exact List.filter_congr hslot
+  have hin : ∀ s ∈ live, (tmOf l s.2).isNone = false := by
+    intro s hs
+    have : (tmOf l s.2).isSome := tmOf_isSome_iff.mpr (by rw [hlmap]; exact List.mem_map.mpr ⟨s, hs, rfl⟩)
+    cases h : tmOf l s.2 with
+    | none => rw [h] at this; cases this
+    | some t => rfl
+  have hout : ∀ s ∈ F, s ∉ live → s.2 ∉ live.map (·.2) → (tmOf l s.2).isNone = true := by
+    intro s _ _ hs2
+    cases h : tmOf l s.2 with
+    | none => rfl
+    | some t =>
+      have : s.2 ∈ l.map (·.1.2) := tmOf_isSome_iff.mp (by simp [h])
+      rw [hlmap] at this
+      exact absurd this hs2
+  rw [h1]
+  have e1 : (F.take pos).filter (fun s => (tmOf l s.2).isNone) = F.take pos := by
+    rw [List.filter_eq_self]
+    intro s hs
+    rw [hnone s (List.mem_append_left _ hs)]; rfl
+  have e2 : live.filter (fun s => (tmOf l s.2).isNone) = [] := by
+    rw [List.filter_eq_nil_iff]
+    intro s hs
+    simp [hin s hs]
+  have e3 : (F.drop (pos + num)).filter (fun s => (tmOf l s.2).isNone) = F.drop (pos + num) := by
+    rw [List.filter_eq_self]
+    intro s hs
+    rw [hnone s (List.mem_append_right _ hs)]; rfl
+  have hfl : F.filter (fun s => (tmOf l s.2).isNone) = F.take pos ++ F.drop (pos + num) := by
+    conv_lhs => rw [hsplit]
+    rw [List.filter_append, List.filter_append, e1, e2, e3]
+    simp
+  rw [hfl]
+  refine ⟨rfl, ?_⟩
+  rw [hF] at hsz
+  rw [hsz]
+  simp only [List.length_append, List.length_take, List.length_drop]
+  omega
+
+/-! ### replacing the child of one live slot -/
+
+theorem setSlotChild_split {c : Ts} : ∀ {sl : List (Ts × Ts)} {s : Ts × Ts}, s ∈ sl → (sl.map (·.1)).Nodup →
+    ∃ A B, sl = A ++ s :: B ∧ setSlotChild s.1 c sl = A ++ (s.1, c) :: B := by
+  intro sl
+  induction sl with
+  | nil => intro s hs; cases hs
+  | cons x xs ih =>
+    intro s hs hnd
+    simp only [List.map_cons, List.nodup_cons] at hnd
+    by_cases hx : x.1 = s.1
+    · have : s = x := by
+        rcases List.mem_cons.mp hs with h | h
+        · exact h
+        · exact absurd (List.mem_map.mpr ⟨s, h, hx.symm⟩) hnd.1
+      subst this
+      exact ⟨[], xs, rfl, by simp [setSlotChild]⟩
+    · have hs' : s ∈ xs := by
+        rcases List.mem_cons.mp hs with h | h
+        · rw [h] at hx; exact absurd rfl hx
+        · exact h
+      obtain ⟨A, B, e1, e2⟩ := ih hs' hnd.2
+      exact ⟨x :: A, B, by rw [e1]; rfl, by simp [setSlotChild, hx, e2]⟩
+
+theorem DInv.kid_ne {L : OpId} {b : Nat} {d : Doc} (I : DInv L b d) {hd : Ts} {pn : DNode} (hp : d.find hd = some pn)
+    {x : Ts} (hx : x ∈ kids pn.kind) : x ≠ hd := by
+  obtain ⟨rk, hr⟩ := I.acyc
+  intro e
+  have := hr hd pn hp x hx
+  rw [e] at this
+  exact Nat.lt_irrefl _ this
+
+/-- the timestamp handed out at delimiter `b` -/
+def tsAt (L : OpId) (b : Nat) : Ts := ⟨L.era, L.lamport + 1, L.cuid, b⟩
+
+theorem tsAt_zero (L : OpId) : tsAt L 0 = L.next.ts := rfl
+
+/-- one iteration of updateLocalInArray.go -/
+theorem upd1_run {L : OpId} {b : Nat} {d : Doc} {hd : Ts} {pn : DNode} {sl : List (Ts × Ts)} {size : Int}
+    (I : DInv L b d) (hp : d.find hd = some pn) (hk : pn.kind = .arr sl size) {s : Ts × Ts} (hs : s ∈ sl)
+    (hlive : d.isTomb s.2 = false) (v : JVal) (hnn : v.hasNull = false) :
+    ∃ ns t' A B, createNode hd (tsAt L b) v = .ok (ns, tsAt L b, t') ∧ sl = A ++ s :: B ∧
+      setSlotChild s.1 (tsAt L b) sl = A ++ (s.1, tsAt L b) :: B ∧
+      (d.addAll ns).findArr hd = some (pn, sl, size) ∧ b < t'.delim ∧
+      Stp L b t'.delim d hd pn (.arr (A ++ (s.1, tsAt L b) :: B) size) ns (buryOf (some s.2) (tsAt L b))
+        (fun _ => none)
+        (((d.addAll ns).set { pn with kind := .arr (A ++ (s.1, tsAt L b) :: B) size }).funeral s.2 (tsAt L b)) ∧
+      SizeOK (((d.addAll ns).set { pn with kind := .arr (A ++ (s.1, tsAt L b) :: B) size }).funeral s.2 (tsAt L b))
+        (.arr (A ++ (s.1, tsAt L b) :: B) size) ∧
+      (((d.addAll ns).set { pn with kind := .arr (A ++ (s.1, tsAt L b) :: B) size }).funeral s.2 (tsAt L b)).isTomb
+        (tsAt L b) = false := by
+  obtain ⟨⟨ns, c, t'⟩, hc⟩ := createNode_ok hd (tsAt L b) v hnn
+  have hroot := createNode_root hc
+  subst hroot
+  obtain ⟨hblock, _, n0, rest, hns, hn0c, hn0p⟩ := createNode_spec hd (tsAt L b) v _ hc
+  simp only at hblock hns
+  obtain ⟨hnodeok, hlnk⟩ := createNode_spec2 hd (tsAt L b) v _ hc
+  simp only at hnodeok hlnk
+  have hnewst := block_newst (L := L) hblock rfl rfl
+  have hfresh : Fresh d ns := fresh_of_newst I hnewst
+  have hpc := find_some_c hp
+  have hn0mem : n0 ∈ ns := by rw [hns]; simp
+  have hlen : 1 ≤ ns.length := by rw [hns]; simp
+  have ht' : t'.delim = b + ns.length := by rw [hblock.next]; simp [addDelim, tsAt]
+  have hkids : kids pn.kind = sl.map (·.2) := by rw [hk]; rfl
+  have hvnd : (sl.map (·.2)).Nodup := by have := I.wf.inj hd pn hp; rwa [hkids] at this
+  have hond : (sl.map (·.1)).Nodup := by have := I.ordnd hd pn hp; rwa [hk] at this
+  obtain ⟨A, B, e1, e2⟩ := setSlotChild_split (c := tsAt L b) hs hond
+  have hsk : s.2 ∈ kids pn.kind := by rw [hkids]; exact List.mem_map.mpr ⟨s, hs, rfl⟩
+  obtain ⟨nold, hnold, _⟩ := I.wf.child hd pn hp s.2 hsk
+  have hone : s.2 ≠ hd := I.kid_ne hp hsk
+  have htfresh : d.find (tsAt L b) = none := hfresh _ (by rw [hns]; simp [ids, hn0c])
+  have htnot : tsAt L b ∉ sl.map (·.2) := by
+    intro hm
+    obtain ⟨nc, hnc, _⟩ := I.wf.child hd pn hp (tsAt L b) (by rw [hkids]; exact hm)
+    rw [htfresh] at hnc; cases hnc
+  have holdnew : nfind ns s.2 = none := by
+    rw [nfind_none_iff]
+    intro hmem
+    rw [hfresh s.2 hmem] at hnold; cases hnold
+  have hstt : St L t'.delim (tsAt L b) := ⟨rfl, Or.inr ⟨rfl, by rw [ht']; simp only [tsAt]; omega⟩⟩
+  have hfa : (d.addAll ns).findArr hd = some (pn, sl, size) :=
+    DA.findArr_some_iff.mpr ⟨find_addAll_old hfresh hp, hk⟩
+  have hKkids : kids (.arr (A ++ (s.1, tsAt L b) :: B) size) = A.map (·.2) ++ tsAt L b :: B.map (·.2) := by
+    simp [kids]
+  have hslkids : sl.map (·.2) = A.map (·.2) ++ s.2 :: B.map (·.2) := by rw [e1]; simp
+  have hvnd' := hvnd
+  rw [hslkids] at hvnd' htnot
+  simp only [List.nodup_append, List.nodup_cons, List.mem_cons, List.mem_append, not_or] at hvnd' htnot
+  refine ⟨ns, t', A, B, hc, e1, e2, hfa, by omega, ?_⟩
+  have hstp : Stp L b t'.delim d hd pn (.arr (A ++ (s.1, tsAt L b) :: B) size) ns (buryOf (some s.2) (tsAt L b))
+      (fun _ => none)
+      (((d.addAll ns).set { pn with kind := .arr (A ++ (s.1, tsAt L b) :: B) size }).funeral s.2 (tsAt L b)) := by
+    refine ⟨I, hp, ?_, nodup_funeral _ _ (nodup_set _ (nodup_addAll ns I.wf.nodup)), ⟨_, _, hblock⟩, hnewst,
+      by omega, hnodeok, ?_, ?_, ?_, ?_, ?_, ?_, ?_⟩
+    · intro c
+      rw [find_funeral, find_set, find_set, find_addAll, find_addAll]
+      simp only [hpc]
+      by_cases e : c = hd
+      · rw [e]
+        have : ¬ hd = s.2 := fun e' => hone e'.symm
+        simp [this]
+      · have e' : ¬ hd = c := fun e' => e e'.symm
+        by_cases e2 : c = s.2
+        · subst e2
+          simp [e, e', buryOf_self, holdnew]
+        · simp [e, e', e2, buryOf_ne e2]
+    · intro n hn
+      rcases hlnk n hn with ⟨h1, h2⟩ | h
+      · refine Or.inl ⟨?_, h2⟩
+        simp only [List.mem_singleton] at h1
+        rw [h1, hKkids]; simp
+      · exact Or.inr h
+    · intro x t hx
+      rcases hx with hx | hx
+      · obtain ⟨e1', e2'⟩ := buryOf_some hx
+        simp only [Option.some.injEq] at e1'
+        exact ⟨e1' ▸ hsk, e2' ▸ hstt⟩
+      · cases hx
+    · intro x t hx
+      obtain ⟨e1', _⟩ := buryOf_some hx
+      simp only [Option.some.injEq] at e1'
+      subst e1'
+      rw [hKkids]
+      simp only [List.mem_append, List.mem_cons, not_or]
+      exact ⟨fun h => hvnd'.2.2 _ h _ (Or.inl rfl) rfl, fun h => htnot.2.1 h.symm, hvnd'.2.1.1⟩
+    · intro c hc'
+      rw [hKkids] at hc'
+      simp only [List.mem_append, List.mem_cons] at hc'
+      rw [hkids, hslkids]
+      simp only [List.mem_append, List.mem_cons]
+      rcases hc' with h | h | h
+      · exact Or.inl (Or.inl h)
+      · exact Or.inr ⟨n0, hn0mem, by rw [h]; exact hn0c, hn0p⟩
+      · exact Or.inl (Or.inr (Or.inr h))
+    · intro c hc' hb
+      rw [hkids, hslkids] at hc'
+      rw [hKkids]
+      simp only [List.mem_append, List.mem_cons] at hc' ⊢
+      rcases hc' with h | h | h
+      · exact Or.inl h
+      · rw [h, buryOf_self] at hb; cases hb
+      · exact Or.inr (Or.inr h)
+    · rw [hKkids]
+      simp only [List.nodup_append, List.nodup_cons, List.mem_cons]
+      refine ⟨hvnd'.1, ⟨htnot.2.2, hvnd'.2.1.2⟩, ?_⟩
+      intro a ha b' hb'
+      rcases hb' with rfl | hb'
+      · intro e; exact htnot.1 (e ▸ ha)
+      · exact hvnd'.2.2 a ha b' (Or.inr hb')
+    · rw [hk]
+      simp only [ShapeOK]
+      have : (A ++ (s.1, tsAt L b) :: B).map (·.1) = sl.map (·.1) := by rw [e1]; simp
+      rw [this]
+      refine ⟨hond, ?_⟩
+      intro o ho
+      have := (I.stamps hd pn hp).2.2
+      rw [hk] at this
+      exact (this o ho).mono (by omega)
+  have hnew := hstp.isTomb_new hn0mem
+  rw [hn0c] at hnew
+  refine ⟨hstp, ?_, hnew⟩
+  generalize ((d.addAll ns).set { pn with kind := .arr (A ++ (s.1, tsAt L b) :: B) size }).funeral s.2 (tsAt L b) = D
+    at hstp hnew ⊢
+  have hsz := I.sizes hd pn hp
+  rw [hk] at hsz
+  simp only [SizeOK] at hsz ⊢
+  have hold : ∀ (X : List (Ts × Ts)), (∀ x ∈ X, x.2 ∈ sl.map (·.2) ∧ x.2 ≠ s.2) →
+      X.filter (slotLive D) = X.filter (slotLive d) := by
+    intro X hX
+    apply List.filter_congr
+    intro x hx
+    obtain ⟨h1, h2⟩ := hX x hx
+    unfold slotLive
+    rw [hstp.isTomb_old_kid (by rw [hkids]; exact h1) (buryOf_ne h2) rfl]
+  have hA : ∀ x ∈ A, x.2 ∈ sl.map (·.2) ∧ x.2 ≠ s.2 := by
+    intro x hx
+    have hm : x.2 ∈ A.map (·.2) := List.mem_map.mpr ⟨x, hx, rfl⟩
+    exact ⟨by rw [hslkids]; exact List.mem_append_left _ hm, fun e => hvnd'.2.2 _ hm _ (Or.inl rfl) e⟩
+  have hB : ∀ x ∈ B, x.2 ∈ sl.map (·.2) ∧ x.2 ≠ s.2 := by
+    intro x hx
+    have hm : x.2 ∈ B.map (·.2) := List.mem_map.mpr ⟨x, hx, rfl⟩
+    exact ⟨by rw [hslkids]; exact List.mem_append_right _ (List.mem_cons_of_mem _ hm),
+      fun e => hvnd'.2.1.1 (e ▸ hm)⟩
+  rw [List.filter_append, List.filter_cons, hold A hA, hold B hB]
+  rw [e1, List.filter_append, List.filter_cons] at hsz
+  simp only [slotLive, hnew, hlive, Bool.not_false, if_true, List.length_append, List.length_cons] at hsz ⊢
+  exact hsz
+
+/-! ### views after a step -/
+
+namespace Stp
+variable {L : OpId} {b b' : Nat} {d d' : Doc} {hd : Ts} {pn : DNode} {K' : DKind} {ns : List DNode}
+  {bury tm : Ts → Option Ts}
+
+/-- an untouched child of `hd` shows what it showed -/
+theorem view_old (h : Stp L b b' d hd pn K' ns bury tm d') (hg : DG d) (hg' : DG d') {x : Ts}
+    (hx : x ∈ kids pn.kind) (hb : bury x = none) (ht : tm x = none) :
+    d'.viewAt x = d.viewAt x ∧ d'.isTomb x = d.isTomb x := by
+  have hsafe : Safe d hd (fun x => (bury x).isSome ∨ (tm x).isSome) x :=
+    kid_safe h.inv.wf h.inv.acyc h.hp hx (by simp [hb, ht]) h.tk_kid
+  obtain ⟨nx, hnx, _⟩ := h.kid_in hx
+  exact ⟨safe_viewAt hg hg' h.same hsafe (by simp [hnx]), safe_isTomb h.same hsafe (by simp [hnx])⟩
+
+theorem present (h : Stp L b b' d hd pn K' ns bury tm d') : Present d' ns := fun _ hn => h.find_new hn
+
+/-- the root of a created value shows the value -/
+theorem view_created (h : Stp L b b' d hd pn K' ns bury tm d') (hg' : DG d') {p t t' : Ts} {v : JVal}
+    {ns' : List DNode} (hc : createNode p t v = .ok (ns', t, t')) (hsub : ∀ n ∈ ns', n ∈ ns) :
+    d'.viewAt t = v := by
+  obtain ⟨F, hF⟩ := viewOf_createNode d' p t v _ hc (fun n hn => h.find_new (hsub n hn))
+  rw [← viewOf_big hg' t (max F d'.table.length + 1) (by omega)]
+  exact hF _ (by omega)
+
+/-- the roots of several created values show the values -/
+theorem view_createdMany (h : Stp L b b' d hd pn K' ns bury tm d') (hg' : DG d') {p t t' : Ts} {vs : List JVal}
+    {cs : List Ts} (hc : createArrItems p t vs = .ok (ns, cs, t')) :
+    arrView d' (cs.map fun c => (c, c)) = vs := by
+  obtain ⟨F, hF⟩ := viewOf_arrItems d' p t vs ns cs t' hc h.present
+  have := hF (max F d'.table.length + 1) (by omega)
+  rw [← this]
+  unfold arrView
+  apply List.filterMap_congr
+  intro x _
+  obtain ⟨a, ch⟩ := x
+  simp only
+  rw [viewOf_big hg' ch _ (by omega)]
+
+end Stp
+
+theorem append_cons_unique {α : Type} {a : α} : ∀ {l1 l2 l3 l4 : List α}, l1 ++ a :: l2 = l3 ++ a :: l4 →
+    a ∉ l1 → a ∉ l3 → l1 = l3 ∧ l2 = l4 := by
+  intro l1
+  induction l1 with
+  | nil =>
+    intro l2 l3 l4 h _ h3
+    cases l3 with
+    | nil => simpa using h
+    | cons x xs =>
+      simp only [List.nil_append, List.cons_append, List.cons.injEq] at h
+      exact absurd (by rw [h.1]; exact List.mem_cons_self) h3
+  | cons y ys ih =>
+    intro l2 l3 l4 h h1 h3
+    cases l3 with
+    | nil =>
+      simp only [List.nil_append, List.cons_append, List.cons.injEq] at h
+      exact absurd (by rw [← h.1]; exact List.mem_cons_self) h1
+    | cons x xs =>
+      simp only [List.cons_append, List.cons.injEq] at h
+      obtain ⟨e1, e2⟩ := ih h.2 (fun hm => h1 (List.mem_cons_of_mem _ hm)) (fun hm => h3 (List.mem_cons_of_mem _ hm))
+      exact ⟨by rw [h.1, e1], e2⟩
+
+theorem tsAt_next {L : OpId} {b : Nat} {t' : Ts} {ns : List DNode} (hb : Block (tsAt L b) ns t') :
+    t' = tsAt L t'.delim := by
+  rw [hb.next]; rfl
+
+theorem DInv.finish {L : OpId} {b : Nat} {d : Doc} (I : DInv L b d) : DInv L.next 0 d := by
+  have key : ∀ t, St L b t → St L.next 0 t := by
+    intro t ht
+    refine ⟨ht.1, Or.inl ?_⟩
+    have : L.next.lamport = L.lamport + 1 := rfl
+    rcases ht.2 with h | h <;> omega
+  exact ⟨I.wf, I.acyc, I.root, I.sizes, fun c n hf => by
+      obtain ⟨s1, s2, s3⟩ := I.stamps c n hf
+      exact ⟨key _ s1, fun t ht => key _ (s2 t ht), fun o ho => key _ (s3 o ho)⟩,
+    I.ordnd, I.linked, I.scalar⟩
+
+/-- the loop of updateLocalInArray -/
+theorem update_loop {L : OpId} {hd : Ts} {size : Int} : ∀ (todo : List (Ts × Ts)) (vs : List JVal) (b : Nat)
+    (d : Doc) (pn : DNode) (sl : List (Ts × Ts)),
+    DInv L b d → d.find hd = some pn → pn.kind = .arr sl size →
+    (∀ s ∈ todo, s ∈ sl ∧ d.isTomb s.2 = false) → (todo.map (·.2)).Nodup → vs.length = todo.length →
+    JVal.hasNullList vs = false →
+    ∃ d' b' pn' sl', Doc.updateLocalInArray.go hd todo vs (tsAt L b) d = .ok d' ∧ DInv L b' d' ∧
+      d'.find hd = some pn' ∧ pn'.kind = .arr sl' size ∧ d'.isTomb hd = d.isTomb hd ∧
+      (∀ c n, d.find c = some n → c ≠ hd → c ∉ todo.map (·.2) → d'.find c = some n) ∧
+      (KeysND d → JKeysNDList vs → KeysND d' ∧ ∀ P Q, sl.filter (slotLive d) = P ++ todo ++ Q →
+        arrView d' sl' = P.map (fun x => d.viewAt x.2) ++ vs ++ Q.map (fun x => d.viewAt x.2)) := by
+  intro todo
+  induction todo with
+  | nil =>
+    intro vs b d pn sl I hp hk _ _ hlen _
+    have : vs = [] := List.length_eq_zero_iff.mp hlen
+    subst this
+    refine ⟨d, b, pn, sl, by rw [Doc.updateLocalInArray.go], I, hp, hk, rfl, fun c n h _ _ => h, ?_⟩
+    intro hkeys _
+    refine ⟨hkeys, ?_⟩
+    intro P Q hPQ
+    rw [arrView_eq, hPQ]
+    simp [List.map_map, Function.comp_def]
+  | cons s ss ih =>
+    intro vs b d pn sl I hp hk htodo hnd hlen hnn
+    cases vs with
+    | nil => simp at hlen
+    | cons v vs' =>
+      simp only [JVal.hasNullList, Bool.or_eq_false_iff] at hnn
+      simp only [List.map_cons, List.nodup_cons] at hnd
+      obtain ⟨hs, hlive⟩ := htodo s List.mem_cons_self
+      obtain ⟨ns, t', A, B, hc, e1, e2, hfa, hbt, hstp, hsize, hnewlive⟩ := upd1_run I hp hk hs hlive v hnn.1
+      have hblock := (createNode_spec hd (tsAt L b) v _ hc).1
+      simp only at hblock
+      have I1 := hstp.next hsize
+      set D1 := ((d.addAll ns).set { pn with kind := .arr (A ++ (s.1, tsAt L b) :: B) size }).funeral s.2 (tsAt L b)
+        with hD1
+      have hkids : kids pn.kind = sl.map (·.2) := by rw [hk]; rfl
+      have hvnd : (sl.map (·.2)).Nodup := by have := I.wf.inj hd pn hp; rwa [hkids] at this
+      have hslkids : sl.map (·.2) = A.map (·.2) ++ s.2 :: B.map (·.2) := by rw [e1]; simp
+      have hothers : ∀ x ∈ sl, x.2 ≠ s.2 → x ∈ A ++ (s.1, tsAt L b) :: B := by
+        intro x hx hne
+        rw [e1] at hx
+        simp only [List.mem_append, List.mem_cons] at hx ⊢
+        rcases hx with h | h | h
+        · exact Or.inl h
+        · rw [h] at hne; exact absurd rfl hne
+        · exact Or.inr (Or.inr h)
+      have htodo1 : ∀ s' ∈ ss, s' ∈ A ++ (s.1, tsAt L b) :: B ∧ D1.isTomb s'.2 = false := by
+        intro s' hs'
+        obtain ⟨h1, h2⟩ := htodo s' (List.mem_cons_of_mem _ hs')
+        have hne : s'.2 ≠ s.2 := fun e => hnd.1 (e ▸ List.mem_map.mpr ⟨s', hs', rfl⟩)
+        refine ⟨hothers s' h1 hne, ?_⟩
+        rw [hstp.isTomb_old_kid (by rw [hkids]; exact List.mem_map.mpr ⟨s', h1, rfl⟩) (buryOf_ne hne) rfl]
+        exact h2
+      obtain ⟨d', b', pn', sl', hgo, I', hp', hk', htomb', hsame', hview'⟩ :=
+        ih vs' t'.delim D1 _ _ I1 hstp.find_hd rfl htodo1 hnd.2 (by simpa using hlen) hnn.2
+      refine ⟨d', b', pn', sl', ?_, I', hp', hk', htomb'.trans hstp.isTomb_hd, ?_, ?_⟩
+      · rw [Doc.updateLocalInArray.go]
+        simp only [hc, hfa, e2]
+        have hgo' := hgo
+        rw [← tsAt_next hblock] at hgo'
+        exact hgo'
+      · intro c n hf hne hnot
+        simp only [List.map_cons, List.mem_cons, not_or] at hnot
+        exact hsame' c n (hstp.find_old hf hne (buryOf_ne hnot.1) rfl) hne hnot.2
+      · intro hkeys hjk
+        simp only [JKeysNDList] at hjk
+        have hkeys1 : KeysND D1 := hstp.next_keys hkeys (createNode_keysND hd (tsAt L b) v _ hc hjk.1)
+          (by intro m s' hh; cases hh)
+        obtain ⟨hkeys', hv'⟩ := hview' hkeys1 hjk.2
+        refine ⟨hkeys', ?_⟩
+        intro P Q hPQ
+        have hg := I.dg hkeys
+        have hg1 := I1.dg hkeys1
+        -- the filtered lists before and after the step
+        have hfilt : ∀ (X : List (Ts × Ts)), (∀ x ∈ X, x ∈ sl ∧ x.2 ≠ s.2) →
+            X.filter (slotLive D1) = X.filter (slotLive d) := by
+          intro X hX
+          apply List.filter_congr
+          intro x hx
+          obtain ⟨h1, h2⟩ := hX x hx
+          unfold slotLive
+          rw [hstp.isTomb_old_kid (by rw [hkids]; exact List.mem_map.mpr ⟨x, h1, rfl⟩) (buryOf_ne h2) rfl]
+        have hvnd' := hvnd
+        rw [hslkids] at hvnd'
+        simp only [List.nodup_append, List.nodup_cons, List.mem_cons] at hvnd'
+        have hA : ∀ x ∈ A, x ∈ sl ∧ x.2 ≠ s.2 := by
+          intro x hx
+          have hm : x.2 ∈ A.map (·.2) := List.mem_map.mpr ⟨x, hx, rfl⟩
+          exact ⟨by rw [e1]; exact List.mem_append_left _ hx, fun e => hvnd'.2.2 _ hm _ (Or.inl rfl) e⟩
+        have hB : ∀ x ∈ B, x ∈ sl ∧ x.2 ≠ s.2 := by
+          intro x hx
+          have hm : x.2 ∈ B.map (·.2) := List.mem_map.mpr ⟨x, hx, rfl⟩
+          exact ⟨by rw [e1]; exact List.mem_append_right _ (List.mem_cons_of_mem _ hx), fun e => hvnd'.2.1.1 (e ▸ hm)⟩
+        have hF0 : sl.filter (slotLive d) = A.filter (slotLive d) ++ s :: B.filter (slotLive d) := by
+          rw [e1, List.filter_append, List.filter_cons]
+          simp [slotLive, hlive]
+        have hF1 : (A ++ (s.1, tsAt L b) :: B).filter (slotLive D1) =
+            A.filter (slotLive d) ++ (s.1, tsAt L b) :: B.filter (slotLive d) := by
+          rw [List.filter_append, List.filter_cons, hfilt A hA, hfilt B hB]
+          simp [slotLive, hnewlive]
+        have hsA : s ∉ A.filter (slotLive d) := by
+          intro hm
+          exact (hA s (List.mem_filter.mp hm).1).2 rfl
+        have hsP : s ∉ P := by
+          intro hm
+          have hFnd : ((sl.filter (slotLive d)).map (·.2)).Nodup :=
+            List.Nodup.sublist (List.Sublist.map _ List.filter_sublist) hvnd
+          have hPQ2 : sl.filter (slotLive d) = P ++ s :: (ss ++ Q) := by rw [hPQ]; simp
+          rw [hPQ2, List.map_append, List.map_cons, List.nodup_append] at hFnd
+          exact hFnd.2.2 s.2 (List.mem_map.mpr ⟨s, hm, rfl⟩) s.2 List.mem_cons_self rfl
+        have hPQ' : A.filter (slotLive d) ++ s :: B.filter (slotLive d) = P ++ s :: (ss ++ Q) := by
+          rw [← hF0, hPQ]; simp
+        obtain ⟨eA, eB⟩ := append_cons_unique hPQ' hsA hsP
+        have hv := hv' (P ++ [(s.1, tsAt L b)]) Q (by rw [hF1, eA, eB]; simp)
+        rw [hv]
+        have hnewv : D1.viewAt (tsAt L b) = v := hstp.view_created hg1 hc (fun n hn => hn)
+        have hPv : ∀ x ∈ P, D1.viewAt x.2 = d.viewAt x.2 := by
+          intro x hx
+          have hxA : x ∈ A.filter (slotLive d) := by rw [eA]; exact hx
+          obtain ⟨h1, h2⟩ := hA x (List.mem_filter.mp hxA).1
+          exact (hstp.view_old hg hg1 (by rw [hkids]; exact List.mem_map.mpr ⟨x, h1, rfl⟩) (buryOf_ne h2) rfl).1
+        have hQv : ∀ x ∈ Q, D1.viewAt x.2 = d.viewAt x.2 := by
+          intro x hx
+          have hxB : x ∈ B.filter (slotLive d) := by rw [eB]; exact List.mem_append_right _ hx
+          obtain ⟨h1, h2⟩ := hB x (List.mem_filter.mp hxB).1
+          exact (hstp.view_old hg hg1 (by rw [hkids]; exact List.mem_map.mpr ⟨x, h1, rfl⟩) (buryOf_ne h2) rfl).1
+        rw [List.map_append, List.map_congr_left hPv, List.map_congr_left hQv]
+        simp [hnewv]
+
+/-- DocUpdate of a range of an array -/
+theorem update_run {L : OpId} {d : Doc} {hd : Ts} {pn : DNode} {slots : List (Ts × Ts)} {size : Int}
+    (I : DInv L 0 d) (hp : d.find hd = some pn) (hk : pn.kind = .arr slots size) (pos : Nat) (vs : List JVal)
+    (hrange : pos + vs.length ≤ (slots.filter (slotLive d)).length) (hnn : JVal.hasNullList vs = false) :
+    ∃ d' b' pn' sl', d.updateLocalInArray hd pos L.next.ts vs =
+        .ok (d', (((slots.filter (slotLive d)).drop pos).take vs.length).map (·.1),
+          (((slots.filter (slotLive d)).drop pos).take vs.length).map (·.2)) ∧
+      DInv L b' d' ∧ d'.find hd = some pn' ∧ pn'.kind = .arr sl' size ∧ d'.isTomb hd = d.isTomb hd ∧
+      (∀ c n, d.find c = some n → c ≠ hd →
+        c ∉ (((slots.filter (slotLive d)).drop pos).take vs.length).map (·.2) → d'.find c = some n) ∧
+      (KeysND d → JKeysNDList vs → KeysND d' ∧
+        arrView d' sl' = ((slots.filter (slotLive d)).take pos).map (fun x => d.viewAt x.2) ++ vs ++
+          ((slots.filter (slotLive d)).drop (pos + vs.length)).map (fun x => d.viewAt x.2)) := by
+  generalize hlive : ((slots.filter (slotLive d)).drop pos).take vs.length = live
+  have hkids : kids pn.kind = slots.map (·.2) := by rw [hk]; rfl
+  have hvnd : (slots.map (·.2)).Nodup := by have := I.wf.inj hd pn hp; rwa [hkids] at this
+  have hlen : live.length = vs.length := by rw [← hlive, List.length_take, List.length_drop]; omega
+  have hsplit := range_split (slots.filter (slotLive d)) pos vs.length
+  rw [hlive] at hsplit
+  have hFnd : ((slots.filter (slotLive d)).map (·.2)).Nodup :=
+    List.Nodup.sublist (List.Sublist.map _ List.filter_sublist) hvnd
+  have hlivemem : ∀ s ∈ live, s ∈ slots ∧ d.isTomb s.2 = false := by
+    intro s hs
+    have : s ∈ slots.filter (slotLive d) := by rw [hsplit]; simp [hs]
+    obtain ⟨h1, h2⟩ := List.mem_filter.mp this
+    exact ⟨h1, by simpa [slotLive] using h2⟩
+  have hlivend : (live.map (·.2)).Nodup := by
+    rw [hsplit] at hFnd
+    simp only [List.map_append, List.nodup_append] at hFnd
+    exact hFnd.2.1.1
+  obtain ⟨d', b', pn', sl', hgo, I', hp', hk', htomb', hsame', hview'⟩ :=
+    update_loop (L := L) (hd := hd) (size := size) live vs 0 d pn slots I hp hk hlivemem hlivend hlen.symm hnn
+  refine ⟨d', b', pn', sl', ?_, I', hp', hk', htomb', hsame', ?_⟩
+  · unfold Doc.updateLocalInArray
+    rw [DA.findArr_some_iff.mpr ⟨hp, hk⟩]
+    simp only []
+    rw [hlive, if_neg (by omega)]
+    rw [tsAt_zero] at hgo
+    rw [hgo]
+  · intro hkeys hjk
+    obtain ⟨h1, h2⟩ := hview' hkeys hjk
+    exact ⟨h1, h2 _ _ (by rw [List.append_assoc]; exact hsplit)⟩
+
+/-! ## 5. the public calls -/
+
+def CallKeysND : Call → Prop
+  | .mput _ v => JKeysND v
+  | .linsert _ vs => JKeysNDList vs
+  | .lupdate _ vs => JKeysNDList vs
+  | .dput _ _ v => JKeysND v
+  | .dinsert _ _ vs => JKeysNDList vs
+  | .dupdate _ _ vs => JKeysNDList vs
+  | _ => True
+
+def isMutating : Call → Bool
+  | .dput _ _ _ | .dremove _ _ | .dinsert _ _ _ | .ddelete _ _ | .ddeleteMany _ _ _ | .dupdate _ _ _ => true
+  | _ => false
+
+theorem rollBack_next (o : OpId) : o.next.rollBack = o := by
+  cases o; simp [OpId.next, OpId.rollBack]
+
+theorem call_of_done {r : Replica} {c : Call} {o : Outcome Ret} (h : c.prepare r.state = .done o) :
+    r.call c = (r, o) := by
+  unfold Replica.call; rw [h]
+
+theorem call_of_err {r : Replica} {c : Call} {b : OpBody} {post : Ret → Ret} {e : Nat}
+    (h : c.prepare r.state = .op b post) (hm : b.isMeta = false)
+    (he : execLocal r.state r.opId.next.ts b = .err e) : r.call c = (r, .err e) := by
+  unfold Replica.call
+  rw [h]
+  simp only [Replica.callLocal, Replica.execLocalBase, hm, Bool.false_eq_true, if_false, he, rollBack_next, mapOut]
+
+theorem call_of_ok {r : Replica} {c : Call} {b : OpBody} {post : Ret → Ret} {s' : DState} {b' : OpBody} {ret : Ret}
+    (h : c.prepare r.state = .op b post) (hm : b.isMeta = false)
+    (he : execLocal r.state r.opId.next.ts b = .ok (s', b', ret)) :
+    r.call c = ({ r with opId := r.opId.next, state := s', rbOps := r.rbOps ++ [⟨r.opId.next, b'⟩],
+                         buffer := r.buffer ++ [Op.wire ⟨r.opId.next, b'⟩] }, .ok (post ret)) := by
+  unfold Replica.call
+  rw [h]
+  simp only [Replica.callLocal, Replica.execLocalBase, hm, Bool.false_eq_true, if_false, he, mapOut]
+
+theorem kindOf_obj {d : Doc} {h : Ts} : d.kindOf h = .obj ↔ ∃ pn m s, d.find h = some pn ∧ pn.kind = .obj m s := by
+  unfold Doc.kindOf
+  constructor
+  · intro hk
+    split at hk
+    · rename_i c dd p m s hf; exact ⟨_, m, s, hf, rfl⟩
+    · cases hk
+    · cases hk
+  · rintro ⟨pn, m, s, hf, hk⟩
+    obtain ⟨c, dd, p, k⟩ := pn
+    simp only at hk; subst hk
+    simp [hf]
+
+theorem kindOf_arr {d : Doc} {h : Ts} : d.kindOf h = .arr ↔ ∃ pn sl s, d.find h = some pn ∧ pn.kind = .arr sl s := by
+  unfold Doc.kindOf
+  constructor
+  · intro hk
+    split at hk
+    · cases hk
+    · rename_i c dd p sl s hf; exact ⟨_, sl, s, hf, rfl⟩
+    · cases hk
+  · rintro ⟨pn, sl, s, hf, hk⟩
+    obtain ⟨c, dd, p, k⟩ := pn
+    simp only at hk; subst hk
+    simp [hf]
+
+/-- a located handle: the node and all its ancestors are live -/
+theorem located_live {L : OpId} {b : Nat} {d : Doc} (I : DInv L b d) {hd : Ts} : ∀ (π : List PlainDoc.Seg) (cur : Ts),
+    d.locate π cur = some hd → (∀ f, d.isGarbage f cur = false) → (d.find cur).isSome →
+    (∀ f, d.isGarbage f hd = false) ∧ (d.find hd).isSome := by
+  intro π
+  induction π with
+  | nil => intro cur h h1 h2; simp only [Doc.locate, Option.some.injEq] at h; subst h; exact ⟨h1, h2⟩
+  | cons sg r ih =>
+    intro cur h h1 h2
+    have step : ∀ (n : DNode) (ch : Ts), d.find cur = some n → ch ∈ kids n.kind → d.isTomb ch = false →
+        (∀ f, d.isGarbage f ch = false) ∧ (d.find ch).isSome := by
+      intro n ch hn hch hlive
+      obtain ⟨nc, hnc, hpar⟩ := I.wf.child cur n hn ch hch
+      refine ⟨?_, by simp [hnc]⟩
+      intro f
+      cases f with
+      | zero => rfl
+      | succ f =>
+        have : nc.d.isSome = false := by simpa [Doc.isTomb, hnc] using hlive
+        simp [Doc.isGarbage, hnc, this, hpar, h1 f]
+    cases sg with
+    | key k =>
+      obtain ⟨n, m, s, ch, q1, q2, q3, q4, q5⟩ := locate_key_inv h
+      obtain ⟨a1, a2⟩ := step n ch q1 (by rw [q2]; exact alFind_mem_vals q3) q4
+      exact ih ch q5 a1 a2
+    | idx i =>
+      obtain ⟨n, sl, s, ch, q1, q2, q3, q5⟩ := locate_idx_inv h
+      obtain ⟨q3a, q4⟩ := mem_of_getElem?_filter q3
+      obtain ⟨a1, a2⟩ := step n ch q1 (by rw [q2]; exact q3a) q4
+      exact ih ch q5 a1 a2
+
+theorem root_live {L : OpId} {b : Nat} {d : Doc} (I : DInv L b d) :
+    (∀ f, d.isGarbage f Ts.oldest = false) ∧ (d.find Ts.oldest).isSome := by
+  obtain ⟨m, s, hr⟩ := I.root
+  refine ⟨?_, by simp [hr]⟩
+  intro f
+  cases f with
+  | zero => rfl
+  | succ f => simp [Doc.isGarbage, hr]
+
+theorem located_facts {L : OpId} {b : Nat} {d : Doc} (I : DInv L b d) {hd : Ts} {π : List PlainDoc.Seg}
+    (h : d.locate π Ts.oldest = some hd) :
+    d.garbage hd = false ∧ d.isTomb hd = false ∧ ∃ pn, d.find hd = some pn := by
+  obtain ⟨r1, r2⟩ := root_live I
+  obtain ⟨a1, a2⟩ := located_live I π Ts.oldest h r1 r2
+  obtain ⟨pn, hpn⟩ := Option.isSome_iff_exists.mp a2
+  refine ⟨a1 _, ?_, pn, hpn⟩
+  have := a1 1
+  simp only [Doc.isGarbage, hpn, Bool.or_eq_false_iff] at this
+  simp [Doc.isTomb, hpn, this.1]
 
 end Orda.DP
